@@ -26,6 +26,11 @@ to `S`.  The property-facing statements are in `Props/C09b.lean`.
    `compose_rel` is the statement for `xItem`; `transfer` moves a run of a closed `S` to another root,
    current item, base object, result list (an instance of `frame_all`).
 
+5. `…_compP`, `compP_all`, `compose_relP`: the same simulation with the composed run in **probe mode**
+   (`found = nil`, stop at the first hit) against the run of the prefix in collect mode: `CompOkP` = every run of
+   `S` returned `notFound` (`FeedNF`) and the composed run ended as the run of the prefix, without a hit;
+   `CompStopP` = a run of `S` hit or failed and the composed run returned that.
+
 Side conditions, and why: see the header of `Props/C09b.lean`.
 Everything lives in `Sqljson.Exec.Compose`.
 -/
@@ -4038,6 +4043,1629 @@ theorem transfer (c' : Ctx) (d : Item) (S : Node) (hS : Indep closedFlags S = tr
   exact tgt_st l (by rw [hctx.2.2.2.2.2, hv]) (by rw [hctx.2.2.2.2.1, hi])
     ((xItem_bud c' k s1 S x (some []) u hb1).trans hb2.symm)
 
+/-! ## 5. the composition simulation, probe mode
+
+The composed run `append P S` in probe mode (`found = nil`: stop at the first hit) against the run of `P`
+alone in collect mode: the items of `P` are fed to `S` in probe mode until one run of `S` does not return
+`notFound` (a hit, or a failure); the composed run returns that result.  Same structure as part 4; the
+lemmas about the run of `P` alone (`…_grow`) are shared. -/
+
+section probe
+variable (c : Ctx) (S : Node) (Φ : Nat)
+
+/-- `r` is what a run of `S` on `x` in probe mode returns when started in state `t` -/
+def KRp (t : St) (x : Item) (r : Res) : Prop :=
+  ∃ fuel, fuel ≤ Φ ∧ r = xItem c fuel t S x none c.lax
+
+theorem KRp.good {t : St} {x : Item} {r : Res} (h : KRp c S Φ t x r) : Good t none r := by
+  obtain ⟨fuel, _, rfl⟩ := h; exact xItem_good c fuel t S x none c.lax
+
+theorem KRp.bud {t : St} {x : Item} {r : Res} (h : KRp c S Φ t x r) (hb : t.budget = none) :
+    r.st.budget = none := by
+  obtain ⟨fuel, _, rfl⟩ := h; exact xItem_bud c fuel t S x none c.lax hb
+
+theorem KRp.stkLe {t : St} {x : Item} {r : Res} (h : KRp c S Φ t x r) : StkLe t r.st := by
+  obtain ⟨fuel, _, rfl⟩ := h; exact xItem_stkLe c fuel t S x none c.lax
+
+/-- feeding the items `xs`, in order, to `S` in probe mode, every run returning `notFound` -/
+inductive FeedNF : St → List Item → St → Prop
+  | nil (t : St) : FeedNF t [] t
+  | cons {t : St} {x : Item} {r : Res} {xs : List Item} {t' : St} :
+      KRp c S Φ t x r → r.status = .notFound → FeedNF r.st xs t' → FeedNF t (x :: xs) t'
+
+theorem FeedNF.append {t t1 t2 : St} {xs ys : List Item} (h1 : FeedNF c S Φ t xs t1)
+    (h2 : FeedNF c S Φ t1 ys t2) : FeedNF c S Φ t (xs ++ ys) t2 := by
+  induction h1 with
+  | nil t => simpa using h2
+  | cons hk hnf _ ih => exact FeedNF.cons hk hnf (ih h2)
+
+theorem FeedNF.ctx {t t' : St} {xs : List Item} (h : FeedNF c S Φ t xs t') :
+    t'.ctxEq t ∧ (t.budget = none → t'.budget = none) := by
+  induction h with
+  | nil t => exact ⟨St.ctxEq.refl t, id⟩
+  | cons hk hnf _ ih =>
+    exact ⟨ih.1.trans (KRp.good c S Φ hk).ctx, fun hb => ih.2 (KRp.bud c S Φ hk hb)⟩
+
+theorem FeedNF.junc {t t' s : St} {xs : List Item} (h : FeedNF c S Φ t xs t') (hj : Junc t s) : Junc t' s :=
+  hj.ofCtxL (h.ctx c S Φ).1 ((h.ctx c S Φ).2 hj.2.2.2.1)
+
+theorem FeedNF.stkLe {t t' : St} {xs : List Item} (h : FeedNF c S Φ t xs t') : StkLe t t' := by
+  induction h with
+  | nil t => exact StkLe.refl t
+  | cons hk _ _ ih => exact (KRp.stkLe c S Φ hk).trans ih
+
+/-- no run of `S` hit or failed: the composed run ended as the run of the prefix, without a hit -/
+def CompOkP (t : St) (m : List Item) (A B : Res) : Prop :=
+  ∃ xs t', B.found = some (m ++ xs) ∧ FeedNF c S Φ t xs t' ∧ A.found = none ∧ A.st = mix t' B.st ∧
+    A.err = B.err ∧ (A.status = .failed ↔ B.status = .failed) ∧ A.status ≠ .ok
+
+/-- the run of `S` on the item `x` hit or failed (after the runs on `xs` returned `notFound`): the composed run
+    returns that; the run of the prefix alone goes on -/
+def CompStopP (t : St) (m : List Item) (A : Res) (Bst : St) (Bfound : Found) : Prop :=
+  ∃ xs x rest t1 F, Bfound = some (m ++ xs ++ x :: rest) ∧ FeedNF c S Φ t xs t1 ∧ KRp c S Φ t1 x F ∧
+    F.status ≠ .notFound ∧ A.status = F.status ∧ A.err = F.err ∧ A.found = none ∧
+    StkLe F.st A.st ∧ StkLe A.st (mix F.st Bst)
+
+def CompP (t : St) (m : List Item) (A B : Res) : Prop :=
+  CompOkP c S Φ t m A B ∨ CompStopP c S Φ t m A B.st B.found
+
+def CompIP (item : ItemK) : Prop :=
+  ∀ sB t m n v u, Junc t sB → ChainOK sB n →
+    CompP c S Φ t m (item (mix t sB) (append n S) v none u) (item sB n v (some m) u)
+
+def CompAP (any : AnyK) : Prop :=
+  ∀ sB t m node vs lv a b ign un, Junc t sB → ChainOKO sB node → (ign = true → sB.ignoreSE = true) →
+    (node = none → un = c.lax) →
+    CompP c S Φ t m (any (mix t sB) (some (appendO node S)) vs none lv a b ign un)
+      (any sB node vs (some m) lv a b ign un)
+
+/-- what the per-function lemmas of the probe-mode simulation assume about the recursive calls:
+    everything of `Hyp`, and the probe-mode junction and simulation -/
+structure HypP (item : ItemK) (bool : BoolK) (any : AnyK) : Prop where
+  base : Hyp c S Φ item bool any
+  jn : ∀ sB t x, Junc t sB →
+    ∃ r, KRp c S Φ t x r ∧ item (mix t sB) S x none c.lax = ⟨mix r.st sB, none, r.status, r.err⟩
+  ci : CompIP c S Φ item
+  ca : CompAP c S Φ any
+
+variable {c S Φ} {item : ItemK} {bool : BoolK} {any : AnyK}
+
+/-! ### building blocks -/
+
+theorem CompOkP.ofBoth (t sB : St) (m : List Item) (st : Status) (e : Option Err) (hst : st ≠ .ok) :
+    CompOkP c S Φ t m ⟨mix t sB, none, st, e⟩ ⟨sB, some m, st, e⟩ :=
+  ⟨[], t, by simp, FeedNF.nil t, rfl, rfl, rfl, Iff.rfl, hst⟩
+
+/-- both runs return the same result (not a hit) without evaluating the rest of the chain -/
+theorem CompP.ofBoth (t sB : St) (m : List Item) (st : Status) (e : Option Err) (hst : st ≠ .ok) :
+    CompP c S Φ t m ⟨mix t sB, none, st, e⟩ ⟨sB, some m, st, e⟩ :=
+  Or.inl (CompOkP.ofBoth t sB m st e hst)
+
+theorem compP_ite {p : Prop} [Decidable p] {t : St} {m : List Item} {A A' B B' : Res}
+    (h1 : p → CompP c S Φ t m A B) (h2 : ¬ p → CompP c S Φ t m A' B') :
+    CompP c S Φ t m (if p then A else A') (if p then B else B') := by
+  by_cases h : p
+  · rw [if_pos h, if_pos h]; exact h1 h
+  · rw [if_neg h, if_neg h]; exact h2 h
+
+/-- both runs restore context fields at exit -/
+theorem CompP.frame {t : St} {m : List Item} {A B : Res} (ρ : St → St)
+    (hρ : ∀ t s, ρ (mix t s) = mix t (ρ s))
+    (hstk : ∀ s, (ρ s).panicked = s.panicked ∧ (ρ s).oof = s.oof ∧ (ρ s).sawCancel = s.sawCancel)
+    (h : CompP c S Φ t m A B) : CompP c S Φ t m { A with st := ρ A.st } { B with st := ρ B.st } := by
+  rcases h with ⟨xs, t', h1, h2, h3, h4, h5, h6, h7⟩ | ⟨xs, x, rest, t1, F, h1, h2, h3, h4, h5, h6, h7, h8, h9⟩
+  · exact Or.inl ⟨xs, t', h1, h2, h3, by simp only [h4, hρ], h5, h6, h7⟩
+  · refine Or.inr ⟨xs, x, rest, t1, F, h1, h2, h3, h4, h5, h6, h7, ?_, ?_⟩
+    · obtain ⟨a, b, d⟩ := hstk A.st
+      exact ⟨by rw [a]; exact h8.1, by rw [b]; exact h8.2.1, by rw [d]; exact h8.2.2⟩
+    · obtain ⟨a, b, d⟩ := hstk A.st
+      obtain ⟨a', b', d'⟩ := hstk B.st
+      refine ⟨?_, ?_, ?_⟩
+      · rw [a]; intro h; have := h9.1 h; simp at this ⊢; rw [a']; exact this
+      · rw [b]; intro h; have := h9.2.1 h; simp at this ⊢; rw [b']; exact this
+      · rw [d]; intro h; have := h9.2.2 h; simp at this ⊢; rw [d']; exact this
+
+theorem executeNextItem_compP (H : HypP c S Φ item bool any) {t sB : St} (m : List Item) (nx : Option Node)
+    (v : Item) (hj : Junc t sB) (hc : ChainOKO sB nx) :
+    CompP c S Φ t m (executeNextItem c item (mix t sB) (some (appendO nx S)) v none)
+      (executeNextItem c item sB nx v (some m)) := by
+  cases nx with
+  | some n =>
+    simp only [executeNextItem, executeItem, appendO_some]
+    exact H.ci sB t m n v c.lax hj (by simpa [ChainOKO, ChainOK] using hc)
+  | none =>
+    simp only [executeNextItem, executeItem, appendO_none]
+    obtain ⟨r, hr, hA⟩ := H.jn sB t v hj
+    rw [hA]
+    have hg := KRp.good c S Φ hr
+    by_cases hf : r.status = .notFound
+    · refine Or.inl ⟨[v], r.st, by simp [Found.append], FeedNF.cons hr hf (FeedNF.nil _), rfl, rfl, ?_, ?_, ?_⟩
+      · show r.err = none
+        exact err_none_of_good hg (by rw [hf]; simp)
+      · simp [hf]
+      · show r.status ≠ .ok
+        rw [hf]; simp
+    · refine Or.inr ⟨[], v, [], t, r, by simp [Found.append], FeedNF.nil t, hr, hf, rfl, rfl, rfl, ?_, ?_⟩
+      · exact stkLe_mix_left _ _
+      · exact StkLe.refl _
+
+theorem returnVerboseError_compP (t sB : St) (m : List Item) :
+    CompP c S Φ t m (returnVerboseError (mix t sB) none) (returnVerboseError sB (some m)) := by
+  unfold returnVerboseError
+  simp only [mix_verbose]
+  exact compP_ite (fun _ => CompP.ofBoth _ _ _ _ _ (by simp)) (fun _ => CompP.ofBoth _ _ _ _ _ (by simp))
+
+theorem returnError_compP (t sB : St) (m : List Item) (e : Err) :
+    CompP c S Φ t m (returnError (mix t sB) none e) (returnError sB (some m) e) := by
+  unfold returnError
+  simp only [mix_verbose]
+  exact compP_ite (fun _ => CompP.ofBoth _ _ _ _ _ (by simp)) (fun _ => CompP.ofBoth _ _ _ _ _ (by simp))
+
+theorem structural_compP (t sB : St) (m : List Item) :
+    CompP c S Φ t m (structural (mix t sB) none) (structural sB (some m)) := by
+  unfold structural
+  simp only [mix_ignoreSE]
+  exact compP_ite (fun _ => returnVerboseError_compP _ _ _) (fun _ => CompP.ofBoth _ _ _ _ _ (by simp))
+
+theorem returnVerboseError_compOkP (t sB : St) (m : List Item) :
+    CompOkP c S Φ t m (returnVerboseError (mix t sB) none) (returnVerboseError sB (some m)) := by
+  unfold returnVerboseError
+  by_cases h : sB.verbose = true
+  · have h' : (mix t sB).verbose = true := h
+    rw [if_pos h', if_pos h]; exact CompOkP.ofBoth _ _ _ _ _ (by simp)
+  · have h' : ¬ (mix t sB).verbose = true := h
+    rw [if_neg h', if_neg h]; exact CompOkP.ofBoth _ _ _ _ _ (by simp)
+
+theorem returnError_compOkP (t sB : St) (m : List Item) (e : Err) :
+    CompOkP c S Φ t m (returnError (mix t sB) none e) (returnError sB (some m) e) := by
+  unfold returnError
+  by_cases h : (sB.verbose || !e.isVerbose) = true
+  · have h' : ((mix t sB).verbose || !e.isVerbose) = true := h
+    rw [if_pos h', if_pos h]; exact CompOkP.ofBoth _ _ _ _ _ (by simp)
+  · have h' : ¬ ((mix t sB).verbose || !e.isVerbose) = true := h
+    rw [if_neg h', if_neg h]; exact CompOkP.ofBoth _ _ _ _ _ (by simp)
+
+/-! ### loops: the generic part -/
+
+/-- the accumulator of the composed run after a call of the rest of the chain in probe mode: a hit or a
+    failure returns -/
+def updP (r : Res) : View := if r.status = .notFound then ⟨r.st, r.found, none⟩ else ⟨r.st, r.found, some r⟩
+
+theorem updP_stop {r : Res} (h : r.status ≠ .notFound) : updP r = ⟨r.st, r.found, some r⟩ := by simp [updP, h]
+theorem updP_nf {r : Res} (h : r.status = .notFound) : updP r = ⟨r.st, r.found, none⟩ := by simp [updP, h]
+theorem updP_ret_none {r : Res} (h : (updP r).ret = none) : r.status = .notFound := by
+  by_cases hs : r.status = .notFound
+  · exact hs
+  · rw [updP_stop hs] at h; simp at h
+
+variable (c S Φ) in
+def RunningP (t : St) (m : List Item) (vA vB : View) : Prop :=
+  vA.ret = none ∧ vB.ret = none ∧ ∃ xs t', vB.found = some (m ++ xs) ∧ FeedNF c S Φ t xs t' ∧
+    vA.found = none ∧ vA.st = mix t' vB.st ∧ Junc t' vB.st
+
+variable (c S Φ) in
+def BothP (t : St) (m : List Item) (vA vB : View) : Prop :=
+  ∃ rA rB, vA.ret = some rA ∧ vB.ret = some rB ∧ CompOkP c S Φ t m rA rB
+
+variable (c S Φ) in
+def StoppedP (t : St) (m : List Item) (vA vB : View) : Prop :=
+  ∃ rA, vA.ret = some rA ∧ CompStopP c S Φ t m rA vB.curSt vB.curFound
+
+theorem RunningP.retA {t : St} {m : List Item} {vA vB : View} (h : RunningP c S Φ t m vA vB) : vA.ret = none := h.1
+theorem RunningP.retB {t : St} {m : List Item} {vA vB : View} (h : RunningP c S Φ t m vA vB) : vB.ret = none := h.2.1
+
+theorem RunningP.ign {t : St} {m : List Item} {vA vB : View} (h : RunningP c S Φ t m vA vB) :
+    vB.st.ignoreSE = t.ignoreSE := by
+  obtain ⟨_, _, xs, t', _, h4, _, _, h7⟩ := h
+  have := (h4.ctx c S Φ).1
+  simp [St.ctxEq] at this
+  rw [← h7.2.2.1, this.2.2.2.2.1]
+
+theorem CompStopP.grow {t : St} {m : List Item} {A : Res} {st st' : St} {f f' : Found}
+    (h : CompStopP c S Φ t m A st f) (hs : Shape f f') (hk : StkLe st st') : CompStopP c S Φ t m A st' f' := by
+  obtain ⟨xs, x, rest, t1, F, h1, h2, h3, h4, h5, h6, h7, h8, h9⟩ := h
+  obtain ⟨l', hl'⟩ := hs.2 _ h1
+  refine ⟨xs, x, rest ++ l', t1, F, by rw [hl']; simp [List.append_assoc], h2, h3, h4, h5, h6, h7, h8, ?_⟩
+  exact h9.trans (StkLe.mix (StkLe.refl _) hk)
+
+theorem CompOkP.rebase {t t' : St} {m xs : List Item} {A B : Res} (hf : FeedNF c S Φ t xs t')
+    (h : CompOkP c S Φ t' (m ++ xs) A B) : CompOkP c S Φ t m A B := by
+  obtain ⟨xs2, t2, h1, h2, h3, h4, h5, h6, h7⟩ := h
+  exact ⟨xs ++ xs2, t2, by rw [h1, List.append_assoc], hf.append c S Φ h2, h3, h4, h5, h6, h7⟩
+
+theorem CompStopP.rebase {t t' : St} {m xs : List Item} {A : Res} {st : St} {f : Found}
+    (hf : FeedNF c S Φ t xs t') (h : CompStopP c S Φ t' (m ++ xs) A st f) : CompStopP c S Φ t m A st f := by
+  obtain ⟨xs2, x, rest, t1, F, h1, h2, h3, h4, h5, h6, h7, h8, h9⟩ := h
+  exact ⟨xs ++ xs2, x, rest, t1, F, by rw [h1]; simp [List.append_assoc], hf.append c S Φ h2, h3, h4, h5, h6, h7, h8, h9⟩
+
+/-- one call of the rest of the chain from two running loops -/
+theorem step_ofCallP {t t' : St} {m xs : List Item} (hf : FeedNF c S Φ t xs t') {s1 : St} {f1 : Found}
+    (hj1 : Junc t' s1) {rA rB : Res} (hc : CompP c S Φ t' (m ++ xs) rA rB) (hg : Good s1 f1 rB)
+    (hb : rB.st.budget = none) :
+    RunningP c S Φ t m (updP rA) (upd rB) ∨ BothP c S Φ t m (updP rA) (upd rB) ∨
+      StoppedP c S Φ t m (updP rA) (upd rB) := by
+  rcases hc with hok | hstop
+  · have hok' := CompOkP.rebase hf hok
+    obtain ⟨xs2, t2, h1, h2, h3, h4, h5, h6, h7⟩ := hok
+    by_cases hB : rB.status = .failed
+    · have hA := h6.2 hB
+      right; left
+      exact ⟨rA, rB, by rw [updP_stop (by rw [hA]; simp)], by rw [upd_failed hB], hok'⟩
+    · have hA : rA.status ≠ .failed := fun h => hB (h6.1 h)
+      have hnf : rA.status = .notFound := by
+        cases hs : rA.status with
+        | ok => exact absurd hs h7
+        | notFound => rfl
+        | failed => exact absurd hs hA
+      left
+      rw [updP_nf hnf, upd_ok hB]
+      exact ⟨rfl, rfl, xs ++ xs2, t2, by rw [h1, List.append_assoc], hf.append c S Φ h2, h3, h4,
+        (h2.junc c S Φ hj1).ofCtx hg.ctx hb⟩
+  · have hA : rA.status ≠ .notFound := by
+      obtain ⟨_, _, _, _, _, _, _, _, h4, h5, _⟩ := hstop; rw [h5]; exact h4
+    right; right
+    refine ⟨rA, by rw [updP_stop hA], ?_⟩
+    rw [upd_curSt, upd_curFound]
+    exact CompStopP.rebase hf hstop
+
+/-- two loops over the same elements -/
+theorem fold_compP {α β γ : Type} {t : St} {m : List Item} (stepA : β → α → β) (stepB : γ → α → γ)
+    (vwA : β → View) (vwB : γ → View) (I : β → γ → Prop) (V : γ → Prop)
+    (hskipA : ∀ a x, (vwA a).ret ≠ none → stepA a x = a)
+    (hskipB : ∀ b x, (vwB b).ret ≠ none → stepB b x = b)
+    (hstep : ∀ a b x, RunningP c S Φ t m (vwA a) (vwB b) → I a b →
+      (RunningP c S Φ t m (vwA (stepA a x)) (vwB (stepB b x)) ∧ I (stepA a x) (stepB b x)) ∨
+      BothP c S Φ t m (vwA (stepA a x)) (vwB (stepB b x)) ∨
+      (StoppedP c S Φ t m (vwA (stepA a x)) (vwB (stepB b x)) ∧ V (stepB b x)))
+    (hgrow : ∀ (b : γ) (xs : List α), V b → GrowV (vwB b) (vwB (xs.foldl stepB b))) :
+    ∀ (xs : List α) (a : β) (b : γ),
+      ((RunningP c S Φ t m (vwA a) (vwB b) ∧ I a b) ∨ BothP c S Φ t m (vwA a) (vwB b) ∨
+        (StoppedP c S Φ t m (vwA a) (vwB b) ∧ V b)) →
+      ((RunningP c S Φ t m (vwA (xs.foldl stepA a)) (vwB (xs.foldl stepB b)) ∧ I (xs.foldl stepA a) (xs.foldl stepB b)) ∨
+        BothP c S Φ t m (vwA (xs.foldl stepA a)) (vwB (xs.foldl stepB b)) ∨
+        StoppedP c S Φ t m (vwA (xs.foldl stepA a)) (vwB (xs.foldl stepB b))) := by
+  intro xs
+  induction xs with
+  | nil =>
+    intro a b h
+    rcases h with h | h | h
+    · exact Or.inl h
+    · exact Or.inr (Or.inl h)
+    · exact Or.inr (Or.inr h.1)
+  | cons x xs ih =>
+    intro a b h
+    simp only [List.foldl_cons]
+    rcases h with ⟨hr, hi⟩ | hb | ⟨hfl, hv⟩
+    · exact ih _ _ (hstep a b x hr hi)
+    · obtain ⟨rA, rB, h1, h2, h3⟩ := hb
+      have eA : stepA a x = a := hskipA a x (by simp [h1])
+      have eB : stepB b x = b := hskipB b x (by simp [h2])
+      rw [eA, eB]
+      exact ih _ _ (Or.inr (Or.inl ⟨rA, rB, h1, h2, h3⟩))
+    · obtain ⟨rA, h1, h2⟩ := hfl
+      have eA : ∀ y, stepA a y = a := fun y => hskipA a y (by simp [h1])
+      rw [eA x, foldl_fixed stepA a xs eA]
+      right; right
+      have hg := hgrow b (x :: xs) hv
+      simp only [List.foldl_cons] at hg
+      exact ⟨rA, h1, h2.grow hg.1 hg.2⟩
+
+theorem final_compP {t : St} {m : List Item} {vA vB : View} (ρ : St → St)
+    (hρ : ∀ t s, ρ (mix t s) = mix t (ρ s))
+    (hstk : ∀ s, (ρ s).panicked = s.panicked ∧ (ρ s).oof = s.oof ∧ (ρ s).sawCancel = s.sawCancel)
+    (resA resB : Status)
+    (hres : RunningP c S Φ t m vA vB → (resA = .failed ↔ resB = .failed) ∧ resA ≠ .ok)
+    (h : RunningP c S Φ t m vA vB ∨ BothP c S Φ t m vA vB ∨ StoppedP c S Φ t m vA vB) :
+    CompP c S Φ t m (fin ρ vA resA) (fin ρ vB resB) := by
+  rcases h with hrun | ⟨rA, rB, h1, h2, h3⟩ | ⟨rA, h1, h2⟩
+  · have hres' := hres hrun
+    obtain ⟨h1, h2, xs, t', h3, h4, h5, h6, _⟩ := hrun
+    left
+    simp only [fin, h1, h2]
+    exact ⟨xs, t', h3, h4, h5, by rw [h6, hρ], rfl, hres'.1, hres'.2⟩
+  · simp only [fin, h1, h2]
+    exact CompP.frame ρ hρ hstk (Or.inl h3)
+  · right
+    rw [fin_st, fin_found]
+    simp only [fin, h1]
+    obtain ⟨xs, x, rest, t1, F, g1, g2, g3, g4, g5, g6, g7, g8, g9⟩ := h2
+    refine ⟨xs, x, rest, t1, F, g1, g2, g3, g4, g5, g6, g7, ?_, ?_⟩
+    · obtain ⟨a, b, d⟩ := hstk rA.st
+      exact ⟨by rw [a]; exact g8.1, by rw [b]; exact g8.2.1, by rw [d]; exact g8.2.2⟩
+    · obtain ⟨a, b, d⟩ := hstk rA.st
+      obtain ⟨a', b', d'⟩ := hstk vB.curSt
+      refine ⟨?_, ?_, ?_⟩
+      · rw [a]; intro h; have := g9.1 h; simp at this ⊢; rw [a']; exact this
+      · rw [b]; intro h; have := g9.2.1 h; simp at this ⊢; rw [b']; exact this
+      · rw [d]; intro h; have := g9.2.2 h; simp at this ⊢; rw [d']; exact this
+
+end probe
+
+section probe2
+variable {c : Ctx} {S : Node} {Φ : Nat} {item : ItemK} {bool : BoolK} {any : AnyK}
+
+/-! ### building blocks (probe mode) -/
+
+theorem withBaseObject_compP {t sB : St} (m : List Item) (a : Nat) (i : Int) (kA kB : St → Res)
+    (hk : CompP c S Φ t m (kA (mix t { sB with baseAddr := a, baseId := i })) (kB { sB with baseAddr := a, baseId := i })) :
+    CompP c S Φ t m (withBaseObject (mix t sB) a i kA) (withBaseObject sB a i kB) := by
+  unfold withBaseObject
+  exact CompP.frame (fun st => { st with baseAddr := sB.baseAddr, baseId := sB.baseId })
+    (fun _ _ => rfl) (fun _ => ⟨rfl, rfl, rfl⟩) hk
+
+theorem execLiteral_compP (H : HypP c S Φ item bool any) {t sB : St} (m : List Item) (nx : Option Node)
+    (v : Item) (hj : Junc t sB) (hc : ChainOKO sB nx) :
+    CompP c S Φ t m (execLiteral c item (mix t sB) (some (appendO nx S)) v none)
+      (execLiteral c item sB nx v (some m)) := by
+  unfold execLiteral
+  simp only [Option.isNone_some, Bool.and_false, Bool.false_and, Bool.false_eq_true, if_false]
+  exact executeNextItem_compP H m nx v hj hc
+
+theorem execVariable_compP (H : HypP c S Φ item bool any) {t sB : St} (m : List Item) (name : List Char)
+    (nx : Option Node) (hj : Junc t sB) (hc : ChainOKO sB nx) :
+    CompP c S Φ t m (execVariable c item (mix t sB) name (some (appendO nx S)) none)
+      (execVariable c item sB name nx (some m)) := by
+  unfold execVariable
+  split
+  · exact withBaseObject_compP m _ _ _ _ (executeNextItem_compP H m nx _ (hj.setBase _ _) (hc.setBase _ _))
+  · exact CompP.ofBoth _ _ _ _ _ (by simp)
+
+theorem selfAny_compP (H : HypP c S Φ item bool any) {t sB : St} (m : List Item) (nB : Node) (xs : List Item)
+    (hj : Junc t sB) (hc : ChainOK sB nB) :
+    CompP c S Φ t m (any (mix t sB) (some (append nB S)) xs none 1 1 1 false false)
+      (any sB (some nB) xs (some m) 1 1 1 false false) := by
+  have h := H.ca sB t m (some nB) xs 1 1 1 false false hj (by simpa [ChainOKO, ChainOK] using hc)
+    (by simp) (by simp)
+  simpa using h
+
+theorem execKeyNode_compP (H : HypP c S Φ item bool any) {t sB : St} (m : List Item) (nB : Node)
+    (key : List Char) (nx : Option Node) (v : Item) (unwrap : Bool) (hj : Junc t sB) (hc : ChainOK sB nB)
+    (hcx : ChainOKO sB nx) :
+    CompP c S Φ t m (execKeyNode c item any (mix t sB) (append nB S) key (some (appendO nx S)) v none unwrap)
+      (execKeyNode c item any sB nB key nx v (some m) unwrap) := by
+  unfold execKeyNode
+  cases v with
+  | obj kvs =>
+    simp only
+    cases Item.lookup key kvs with
+    | some val => exact executeNextItem_compP H m nx val hj hcx
+    | none =>
+      simp only [mix_ignoreSE, mix_verbose]
+      exact compP_ite (fun _ => compP_ite (fun _ => CompP.ofBoth _ _ _ _ _ (by simp))
+          (fun _ => CompP.ofBoth _ _ _ _ _ (by simp)))
+        (fun _ => CompP.ofBoth _ _ _ _ _ (by simp))
+  | arr xs =>
+    simp only
+    exact compP_ite (fun _ => selfAny_compP H m nB xs hj hc) (fun _ => structural_compP _ _ _)
+  | _ => exact structural_compP _ _ _
+
+theorem execAnyKey_compP (H : HypP c S Φ item bool any) {t sB : St} (m : List Item) (nB : Node)
+    (nx : Option Node) (v : Item) (unwrap : Bool) (hj : Junc t sB) (hc : ChainOK sB nB)
+    (hcx : ChainOKO sB nx) :
+    CompP c S Φ t m (execAnyKey c any (mix t sB) (append nB S) (some (appendO nx S)) v none unwrap)
+      (execAnyKey c any sB nB nx v (some m) unwrap) := by
+  unfold execAnyKey
+  cases v with
+  | obj kvs => exact H.ca sB t m nx (members kvs) 1 1 1 false c.lax hj hcx (by simp) (fun _ => rfl)
+  | arr xs =>
+    simp only
+    exact compP_ite (fun _ => selfAny_compP H m nB xs hj hc) (fun _ => structural_compP _ _ _)
+  | _ => exact structural_compP _ _ _
+
+theorem execAnyArray_compP (H : HypP c S Φ item bool any) {t sB : St} (m : List Item)
+    (nx : Option Node) (v : Item) (hj : Junc t sB) (hcx : ChainOKO sB nx) :
+    CompP c S Φ t m (execAnyArray c item any (mix t sB) (some (appendO nx S)) v none)
+      (execAnyArray c item any sB nx v (some m)) := by
+  unfold execAnyArray
+  cases v with
+  | arr xs => exact H.ca sB t m nx xs 1 1 1 false c.lax hj hcx (by simp) (fun _ => rfl)
+  | _ =>
+    simp only
+    exact compP_ite (fun _ => executeNextItem_compP H m nx _ hj hcx) (fun _ => structural_compP _ _ _)
+
+theorem execLastConst_compP (H : HypP c S Φ item bool any) {t sB : St} (m : List Item)
+    (nx : Option Node) (hj : Junc t sB) (hcx : ChainOKO sB nx) :
+    CompP c S Φ t m (execLastConst c item (mix t sB) (some (appendO nx S)) none)
+      (execLastConst c item sB nx (some m)) := by
+  unfold execLastConst
+  simp only [mix_innermost, Option.isNone_some, Bool.and_false, Bool.false_and, Bool.false_eq_true, if_false]
+  exact compP_ite (fun _ => CompP.ofBoth _ _ _ _ _ (by simp)) (fun _ => executeNextItem_compP H m nx _ hj hcx)
+
+theorem execConstNode_compP (H : HypP c S Φ item bool any) {t sB : St} (m : List Item) (nB : Node) (k : Const)
+    (nx : Option Node) (v : Item) (unwrap : Bool) (hj : Junc t sB) (hc : ChainOK sB nB)
+    (hcx : ChainOKO sB nx) :
+    CompP c S Φ t m (execConstNode c item any (mix t sB) (append nB S) k (some (appendO nx S)) v none unwrap)
+      (execConstNode c item any sB nB k nx v (some m) unwrap) := by
+  unfold execConstNode
+  cases k <;> simp only
+  · exact withBaseObject_compP m _ _ _ _ (executeNextItem_compP H m nx _ (hj.setBase _ _) (hcx.setBase _ _))
+  · exact executeNextItem_compP H m nx _ hj hcx
+  · exact execLastConst_compP H m nx hj hcx
+  · exact execAnyArray_compP H m nx v hj hcx
+  · exact execAnyKey_compP H m nB nx v unwrap hj hc hcx
+  · exact execLiteral_compP H m nx _ hj hcx
+  · exact execLiteral_compP H m nx _ hj hcx
+  · exact execLiteral_compP H m nx _ hj hcx
+
+/-- the boolean nodes (`&&`, comparisons, `exists`, `like_regex` …) as path items -/
+theorem boolNode_compP (H : HypP c S Φ item bool any) {t sB : St} (m : List Item) (nB : Node)
+    (nx : Option Node) (v : Item) (hj : Junc t sB) (hcx : ChainOKO sB nx) :
+    CompP c S Φ t m (appendBoolResult c item (some (appendO nx S)) none (bool (mix t sB) (append nB S) v true))
+      (appendBoolResult c item nx (some m) (bool sB nB v true)) := by
+  rw [H.base.bnext, H.base.frameB]
+  have hg := H.base.goodB sB nB v true
+  have hb := H.base.budB sB nB v true hj.2.2.2.2
+  generalize bool sB nB v true = p at hg hb
+  unfold appendBoolResult
+  simp only [mixP_err, mixP_st, mixP_out]
+  cases he : p.err with
+  | some e => exact CompP.ofBoth _ _ _ _ _ (by simp)
+  | none =>
+    simp only [Option.isNone_some, Bool.and_false, Bool.false_and, Bool.false_eq_true, if_false]
+    exact executeNextItem_compP H m nx _ (hj.goodP hg hb) (hcx.ofCtx hg.ctx)
+
+theorem execMethodSize_compP (H : HypP c S Φ item bool any) {t sB : St} (m : List Item)
+    (nx : Option Node) (v : Item) (hj : Junc t sB) (hcx : ChainOKO sB nx) :
+    CompP c S Φ t m (execMethodSize c item (mix t sB) (some (appendO nx S)) v none)
+      (execMethodSize c item sB nx v (some m)) := by
+  unfold execMethodSize
+  cases v with
+  | arr xs => exact executeNextItem_compP H m nx _ hj hcx
+  | _ =>
+    simp only [mix_ignoreSE]
+    exact compP_ite (fun _ => returnVerboseError_compP _ _ _) (fun _ => executeNextItem_compP H m nx _ hj hcx)
+
+theorem execConvMethod_compP (H : HypP c S Φ item bool any) {t sB : St} (m : List Item) (nB : Node)
+    (nx : Option Node) (v : Item) (unwrap : Bool) (conv : Item → Conv) (hj : Junc t sB) (hc : ChainOK sB nB)
+    (hcx : ChainOKO sB nx) :
+    CompP c S Φ t m (execConvMethod c item any (mix t sB) (append nB S) (some (appendO nx S)) v none unwrap conv)
+      (execConvMethod c item any sB nB nx v (some m) unwrap conv) := by
+  have key : ∀ w : Item, CompP c S Φ t m
+      (match conv w with
+        | .val out => executeNextItem c item (mix t sB) (some (appendO nx S)) out none
+        | .verbose => returnVerboseError (mix t sB) none
+        | .hard k => ⟨mix t sB, none, .failed, some (.hard k)⟩
+        | .viaReturnError e => returnError (mix t sB) none e)
+      (match conv w with
+        | .val out => executeNextItem c item sB nx out (some m)
+        | .verbose => returnVerboseError sB (some m)
+        | .hard k => ⟨sB, some m, .failed, some (.hard k)⟩
+        | .viaReturnError e => returnError sB (some m) e) := by
+    intro w
+    cases conv w with
+    | val out => exact executeNextItem_compP H m nx _ hj hcx
+    | verbose => exact returnVerboseError_compP _ _ _
+    | hard k => exact CompP.ofBoth _ _ _ _ _ (by simp)
+    | viaReturnError e => exact returnError_compP _ _ _ _
+  unfold execConvMethod
+  cases v with
+  | arr xs =>
+    simp only [unwrapTargetArray]
+    exact compP_ite (fun _ => selfAny_compP H m nB xs hj hc) (fun _ => returnVerboseError_compP _ _ _)
+  | _ => exact key _
+
+theorem executeDateTimeMethod_compP (H : HypP c S Φ item bool any) {t sB : St} (m : List Item) (op : UnOp)
+    (arg nx : Option Node) (v : Item) (hj : Junc t sB) (hcx : ChainOKO sB nx) :
+    CompP c S Φ t m (executeDateTimeMethod c item (mix t sB) op arg (some (appendO nx S)) v none)
+      (executeDateTimeMethod c item sB op arg nx v (some m)) := by
+  unfold executeDateTimeMethod
+  cases v with
+  | str src =>
+    dsimp only
+    generalize (if (op = UnOp.datetime && arg.isSome) = true then _ else _ : Except Err DateTime) = parsed
+    cases parsed with
+    | error e => exact returnError_compP _ _ _ _
+    | ok d =>
+      simp only
+      have fin : ∀ d' : DateTime, CompP c S Φ t m
+          (if ((some (appendO nx S)).isNone && (none : Found).isNone) = true then (⟨mix t sB, none, .ok, none⟩ : Res)
+           else executeNextItem c item (mix t sB) (some (appendO nx S)) (.dt d') none)
+          (if (nx.isNone && (some m : Found).isNone) = true then (⟨sB, some m, .ok, none⟩ : Res)
+           else executeNextItem c item sB nx (.dt d') (some m)) := by
+        intro d'
+        simp only [Option.isNone_some, Bool.and_false, Bool.false_and, Bool.false_eq_true, if_false]
+        exact executeNextItem_compP H m nx _ hj hcx
+      cases hk : kindOfOp op with
+      | none => exact fin d
+      | some k =>
+        simp only
+        cases hct : Time.castTo c.env c.useTZ k d with
+        | ok d' => exact fin d'
+        | error e =>
+          cases e
+          all_goals exact returnError_compP _ _ _ _
+  | _ => exact returnVerboseError_compP _ _ _
+
+theorem execBinaryMathExpr_compP (H : HypP c S Φ item bool any) {t sB : St} (m : List Item) (op : BinOp)
+    (lo ro nx : Option Node) (v : Item) (hj : Junc t sB) (hcx : ChainOKO sB nx) :
+    CompP c S Φ t m (execBinaryMathExpr c item (mix t sB) op lo ro (some (appendO nx S)) v none)
+      (execBinaryMathExpr c item sB op lo ro nx v (some m)) := by
+  unfold execBinaryMathExpr
+  cases lo with
+  | none => exact CompP.ofBoth _ _ _ _ _ (by simp)
+  | some ln =>
+  cases ro with
+  | none => exact CompP.ofBoth _ _ _ _ _ (by simp)
+  | some rn =>
+    simp only
+    have hl := optUnwrapResult_good c H.base.goodI sB ln v true []
+    have hlb := optUnwrapResult_bud c H.base.budI sB ln v true [] hj.2.2.2.2
+    simp only [H.base.optUnwrap, mixR_status, mixR_st, mixR_err, mixR_found]
+    generalize optUnwrapResult c item sB ln v true [] = rl at hl hlb
+    refine compP_ite (fun _ => CompP.ofBoth _ _ _ _ _ (by simp)) (fun hnf => ?_)
+    have hj1 : Junc t rl.st := hj.good hl hlb
+    have hcx1 : ChainOKO rl.st nx := hcx.ofCtx hl.ctx
+    generalize rl.found.getD [] = ls
+    match ls with
+    | [] => exact returnVerboseError_compP _ _ _
+    | _ :: _ :: _ => exact returnVerboseError_compP _ _ _
+    | [lv] =>
+      simp only
+      have hr := optUnwrapResult_good c H.base.goodI rl.st rn v true []
+      have hrb := optUnwrapResult_bud c H.base.budI rl.st rn v true [] hj1.2.2.2.2
+      generalize optUnwrapResult c item rl.st rn v true [] = rr at hr hrb
+      refine compP_ite (fun _ => CompP.ofBoth _ _ _ _ _ (by simp)) (fun hnf2 => ?_)
+      have hj2 : Junc t rr.st := hj1.good hr hrb
+      have hcx2 : ChainOKO rr.st nx := hcx1.ofCtx hr.ctx
+      generalize rr.found.getD [] = rs
+      match rs with
+      | [] => exact returnVerboseError_compP _ _ _
+      | _ :: _ :: _ => exact returnVerboseError_compP _ _ _
+      | [rv] =>
+        simp only
+        cases Num.mathOp lv rv op with
+        | error e => exact returnVerboseError_compP _ _ _
+        | ok val =>
+          simp only [Option.isNone_some, Bool.and_false, Bool.false_and, Bool.false_eq_true, if_false]
+          exact compP_ite (fun _ => returnVerboseError_compP _ _ _)
+            (fun _ => executeNextItem_compP H m nx _ hj2 hcx2)
+
+/-! ### unary plus / minus (probe mode) -/
+
+/-- the invariant of the unary loop: the composed run (probe mode) never sets `res` -/
+def IUP (a b : UAcc) : Prop := a.res = .notFound ∧ b.res ≠ .failed
+
+/-- the accumulator after one call of the rest of the chain (probe mode, the chain is not empty) -/
+def uGoP (a : UAcc) (r : Res) : UAcc :=
+  if r.status = .failed then { a with st := r.st, found := r.found, ret := some r }
+  else if r.status = .ok then { a with st := r.st, found := r.found, ret := some ⟨r.st, r.found, .ok, none⟩ }
+  else { a with st := r.st, found := r.found }
+
+theorem uGoP_view (a : UAcc) (r : Res) (hr : a.ret = none) (he : r.status ≠ .failed → r.err = none) :
+    vwU (uGoP a r) = updP r ∧ (uGoP a r).res = a.res := by
+  unfold uGoP
+  by_cases h1 : r.status = .failed
+  · rw [if_pos h1, updP_stop (by rw [h1]; simp)]; exact ⟨rfl, rfl⟩
+  · rw [if_neg h1]
+    by_cases h2 : r.status = .ok
+    · rw [if_pos h2, updP_stop (by rw [h2]; simp)]
+      have e := he h1
+      refine ⟨?_, rfl⟩
+      cases r
+      simp only at h2 e
+      subst h2; subst e
+      rfl
+    · rw [if_neg h2]
+      have h3 : r.status = .notFound := by
+        cases hs : r.status with
+        | ok => exact absurd hs h2
+        | notFound => rfl
+        | failed => exact absurd hs h1
+      rw [updP_nf h3]
+      exact ⟨by simp [vwU, hr], rfl⟩
+
+theorem unaryStep_someP {item : ItemK} (cb : Num.UCallback) (n : Node) (a : UAcc) (v val : Item)
+    (hf : a.found = none) (hr : a.ret = none) (hv : uval cb v = some val) :
+    unaryStep c item cb (some n) a v = uGoP a (executeNextItem c item a.st (some n) val none) := by
+  cases v with
+  | int i =>
+    simp only [uval, Option.some.injEq] at hv; subst hv
+    simp [unaryStep, hr, hf, uGoP]
+  | flt x =>
+    simp only [uval, Option.some.injEq] at hv; subst hv
+    simp [unaryStep, hr, hf, uGoP]
+  | jnum tx =>
+    simp only [uval] at hv
+    simp [unaryStep, hr, hf, uGoP, hv]
+  | _ => simp [uval] at hv
+
+theorem unaryStep_noneP {item : ItemK} (cb : Num.UCallback) (n : Node) (a : UAcc) (v : Item)
+    (hf : a.found = none) (hr : a.ret = none) (hv : uval cb v = none) :
+    unaryStep c item cb (some n) a v = { a with ret := some (returnVerboseError a.st none) } := by
+  unfold unaryStep
+  simp only [hr, hf, Option.isNone_some, Bool.and_false, Bool.false_eq_true, if_false]
+  cases v with
+  | int i => simp [uval] at hv
+  | flt x => simp [uval] at hv
+  | jnum tx => simp only [uval] at hv; simp only [hv]
+  | _ => rfl
+
+theorem unaryStep_stepP (H : HypP c S Φ item bool any) {t : St} {m : List Item} (nxB : Option Node)
+    (hcn' : t.ignoreSE = true ∨ NoAnyO nxB = true) (cb : Num.UCallback) (a b : UAcc) (v : Item)
+    (hr : RunningP c S Φ t m (vwU a) (vwU b)) (hi : IUP a b) :
+    (RunningP c S Φ t m (vwU (unaryStep c item cb (some (appendO nxB S)) a v)) (vwU (unaryStep c item cb nxB b v)) ∧
+      IUP (unaryStep c item cb (some (appendO nxB S)) a v) (unaryStep c item cb nxB b v)) ∨
+    BothP c S Φ t m (vwU (unaryStep c item cb (some (appendO nxB S)) a v)) (vwU (unaryStep c item cb nxB b v)) ∨
+    (StoppedP c S Φ t m (vwU (unaryStep c item cb (some (appendO nxB S)) a v)) (vwU (unaryStep c item cb nxB b v)) ∧
+      VU (unaryStep c item cb nxB b v)) := by
+  have hig : b.st.ignoreSE = t.ignoreSE := hr.ign
+  have hcn : ChainOKO b.st nxB := by
+    rcases hcn' with h | h
+    · left; rw [hig]; exact h
+    · right; exact h
+  obtain ⟨hA0, hB0, xs, t', h3, h4, h5, h6, h7⟩ := hr
+  simp only [vwU] at hA0 hB0 h3 h5 h6 h7
+  have hVB : VU (unaryStep c item cb nxB b v) := (unaryStep_grow H.base cb nxB b v ⟨_, h3⟩).2
+  cases hv : uval cb v with
+  | none =>
+    rw [unaryStep_noneP cb _ a v h5 hA0 hv, unaryStep_none cb _ b v (m ++ xs) h3 hB0 hv]
+    right; left
+    refine ⟨_, _, rfl, rfl, ?_⟩
+    rw [h6]
+    exact CompOkP.rebase h4 (returnVerboseError_compOkP _ _ _)
+  | some val =>
+    rw [unaryStep_some cb _ b v val (m ++ xs) h3 hB0 hv] at hVB
+    rw [unaryStep_someP cb _ a v val h5 hA0 hv, unaryStep_some cb _ b v val (m ++ xs) h3 hB0 hv]
+    rw [h6]
+    obtain ⟨hvA, hresA⟩ := uGoP_view a (executeNextItem c item (mix t' b.st) (some (appendO nxB S)) val none) hA0
+      (fun h => err_none_of_good (executeNextItem_good c H.base.goodI _ _ _ _) h)
+    obtain ⟨hvB, hresB⟩ := uGo_view b (executeNextItem c item b.st nxB val (some (m ++ xs))) hB0
+    rw [hvA, hvB]
+    have hgB := executeNextItem_good c H.base.goodI b.st nxB val (some (m ++ xs))
+    have hbB := executeNextItem_bud c H.base.budI b.st nxB val (some (m ++ xs)) h7.2.2.2.2
+    have hcomp := executeNextItem_compP H (m ++ xs) nxB val h7 hcn
+    rcases step_ofCallP h4 h7 hcomp hgB hbB with h | h | h
+    · exact Or.inl ⟨h, by rw [hresA]; exact hi.1, hresB hi.2⟩
+    · exact Or.inr (Or.inl h)
+    · exact Or.inr (Or.inr ⟨h, hVB⟩)
+
+theorem execUnaryMathExpr_compP (H : HypP c S Φ item bool any) {t sB : St} (m : List Item)
+    (operand nx : Option Node) (v : Item) (cb : Num.UCallback) (hj : Junc t sB) (hcx : ChainOKO sB nx) :
+    CompP c S Φ t m (execUnaryMathExpr c item (mix t sB) operand (some (appendO nx S)) v cb none)
+      (execUnaryMathExpr c item sB operand nx v cb (some m)) := by
+  unfold execUnaryMathExpr
+  cases operand with
+  | none => exact CompP.ofBoth _ _ _ _ _ (by simp)
+  | some x =>
+    simp only [H.base.optUnwrap, mixR_status, mixR_st, mixR_err, mixR_found]
+    have hl := optUnwrapResult_good c H.base.goodI sB x v true []
+    have hlb := optUnwrapResult_bud c H.base.budI sB x v true [] hj.2.2.2.2
+    generalize optUnwrapResult c item sB x v true [] = rl at hl hlb
+    refine compP_ite (fun _ => CompP.ofBoth _ _ _ _ _ (by simp)) (fun hnf => ?_)
+    have hj1 : Junc t rl.st := hj.good hl hlb
+    have hcn' : t.ignoreSE = true ∨ NoAnyO nx = true := by
+      rcases hcx with h | h
+      · left; rw [hj.2.2.1]; exact h
+      · right; exact h
+    have h0 : RunningP c S Φ t m (vwU ⟨mix t rl.st, none, .notFound, none⟩) (vwU ⟨rl.st, some m, .notFound, none⟩) :=
+      ⟨rfl, rfl, [], t, by simp [vwU], FeedNF.nil t, rfl, rfl, hj1⟩
+    have hfold := fold_compP (c := c) (S := S) (Φ := Φ) (t := t) (m := m)
+      (unaryStep c item cb (some (appendO nx S))) (unaryStep c item cb nx) vwU vwU IUP VU
+      (fun a x h => unaryStep_skip cb _ a x h) (fun b x h => unaryStep_skip cb _ b x h)
+      (fun a b x hr hi => unaryStep_stepP H nx hcn' cb a b x hr hi)
+      (foldl_grow (unaryStep c item cb nx) vwU VU (fun b' x hV => unaryStep_grow H.base cb nx b' x hV))
+      (rl.found.getD []) _ _ (Or.inl ⟨h0, ⟨rfl, by simp⟩⟩)
+    exact final_compP (c := c) (S := S) (Φ := Φ) (t := t) (m := m) id (fun _ _ => rfl) (fun _ => ⟨rfl, rfl, rfl⟩)
+      ((rl.found.getD []).foldl (unaryStep c item cb (some (appendO nx S))) ⟨mix t rl.st, none, .notFound, none⟩).res
+      ((rl.found.getD []).foldl (unaryStep c item cb nx) ⟨rl.st, some m, .notFound, none⟩).res
+      (fun hrun => by
+        rcases hfold with ⟨_, hi⟩ | ⟨rA, rB, e1, e2, _⟩ | ⟨rA, e1, _⟩
+        · exact ⟨⟨fun h => by rw [hi.1] at h; simp at h, fun h => absurd h hi.2⟩, by rw [hi.1]; simp⟩
+        · exact absurd (e1.symm.trans hrun.retA) (by simp)
+        · exact absurd (e1.symm.trans hrun.retA) (by simp))
+      (by rcases hfold with h | h | h
+          · exact Or.inl h.1
+          · exact Or.inr (Or.inl h)
+          · exact Or.inr (Or.inr h))
+
+/-! ### `.keyvalue()` (probe mode) -/
+
+/-- the early return of the member loop in probe mode: a hit sets `stop` (and the function then returns
+    the accumulator), a failure sets `ret` -/
+def kvRetP (a : KVAcc) : Option Res :=
+  match a.ret with
+  | some r => some r
+  | none => if a.stop then some ⟨a.st, a.found, a.res, none⟩ else none
+
+def vwKVP (a : KVAcc) : View := ⟨a.st, a.found, kvRetP a⟩
+
+/-- what the step needs (`res` of the composed accumulator is `ok` before the first member) -/
+def IKVP0 (a b : KVAcc) : Prop := a.stop = false ∧ b.stop = false ∧ b.res ≠ .failed
+/-- the loop invariant after at least one member -/
+def IKVP (a b : KVAcc) : Prop := IKVP0 a b ∧ a.res = .notFound
+
+theorem kvRetP_none {a : KVAcc} (h : kvRetP a = none) : a.ret = none ∧ a.stop = false := by
+  unfold kvRetP at h
+  cases hr : a.ret with
+  | some r => rw [hr] at h; simp at h
+  | none =>
+    rw [hr] at h
+    cases hs : a.stop with
+    | true => rw [hs] at h; simp at h
+    | false => exact ⟨rfl, rfl⟩
+
+theorem kvStep_skipP {item : ItemK} (nx : Option Node) (id : Int) (a : KVAcc) (x : List Char × Item)
+    (h : (vwKVP a).ret ≠ none) : kvStep c item nx id a x = a := by
+  unfold kvStep
+  cases hr : a.ret with
+  | some r => simp
+  | none =>
+    cases hs : a.stop with
+    | true => simp
+    | false => exact absurd (by simp [vwKVP, kvRetP, hr, hs]) h
+
+theorem kvFin_eqP (s : St) (a : KVAcc) :
+    kvFin s a = fin (fun st => { st with baseAddr := s.baseAddr, baseId := s.baseId }) (vwKVP a) a.res := by
+  unfold kvFin fin vwKVP kvRetP
+  cases hr : a.ret with
+  | some r => rfl
+  | none =>
+    cases hs : a.stop with
+    | true => rfl
+    | false => rfl
+
+theorem kvStep_viewP {item : ItemK} (nx : Option Node) (id : Int) (a : KVAcc) (kv : List Char × Item)
+    (hf : a.found = none) (hr : a.ret = none) (hs : a.stop = false)
+    (he : (executeNextItem c item (kvEnter c a.st (kvObj id kv)) nx (kvObj id kv) none).status ≠ .failed →
+      (executeNextItem c item (kvEnter c a.st (kvObj id kv)) nx (kvObj id kv) none).err = none) :
+    vwKVP (kvStep c item nx id a kv)
+      = updP (executeNextItem c item (kvEnter c a.st (kvObj id kv)) nx (kvObj id kv) none) ∧
+    ((executeNextItem c item (kvEnter c a.st (kvObj id kv)) nx (kvObj id kv) none).status = .notFound →
+      (kvStep c item nx id a kv).res = .notFound ∧ (kvStep c item nx id a kv).stop = false) := by
+  unfold kvStep
+  simp only [hr, hs, hf, Option.isSome_none, Bool.or_false, Bool.false_eq_true, if_false, Option.isNone_none,
+    Bool.and_true, decide_eq_true_eq]
+  generalize executeNextItem c item (kvEnter c a.st (kvObj id kv)) nx (kvObj id kv) none = r at he
+  by_cases h1 : r.status = .failed
+  · rw [if_pos h1, updP_stop (by rw [h1]; simp)]
+    refine ⟨?_, fun hn => by rw [h1] at hn; simp at hn⟩
+    simp [vwKVP, kvRetP]
+  · rw [if_neg h1]
+    by_cases h2 : r.status = .ok
+    · rw [if_pos h2, updP_stop (by rw [h2]; simp)]
+      refine ⟨?_, fun hn => by rw [h2] at hn; simp at hn⟩
+      have e := he h1
+      cases r
+      simp only at h2 e
+      subst h2; subst e
+      simp [vwKVP, kvRetP]
+    · rw [if_neg h2]
+      have h3 : r.status = .notFound := by
+        cases hs : r.status with
+        | ok => exact absurd hs h2
+        | notFound => rfl
+        | failed => exact absurd hs h1
+      rw [updP_nf h3]
+      exact ⟨by simp [vwKVP, kvRetP], fun _ => ⟨h3, rfl⟩⟩
+
+theorem kvStep_stepP (H : HypP c S Φ item bool any) {t : St} {m : List Item} (nxB : Option Node)
+    (hcn' : t.ignoreSE = true ∨ NoAnyO nxB = true) (id : Int) (a b : KVAcc) (kv : List Char × Item)
+    (hr : RunningP c S Φ t m (vwKVP a) (vwKV b)) (hi : IKVP0 a b) :
+    (RunningP c S Φ t m (vwKVP (kvStep c item (some (appendO nxB S)) id a kv)) (vwKV (kvStep c item nxB id b kv)) ∧
+      IKVP (kvStep c item (some (appendO nxB S)) id a kv) (kvStep c item nxB id b kv)) ∨
+    BothP c S Φ t m (vwKVP (kvStep c item (some (appendO nxB S)) id a kv)) (vwKV (kvStep c item nxB id b kv)) ∨
+    (StoppedP c S Φ t m (vwKVP (kvStep c item (some (appendO nxB S)) id a kv)) (vwKV (kvStep c item nxB id b kv)) ∧
+      True) := by
+  have hig : b.st.ignoreSE = t.ignoreSE := hr.ign
+  have hcn : ChainOKO (kvEnter c b.st (kvObj id kv)) nxB := by
+    rcases hcn' with h | h
+    · left; show b.st.ignoreSE = true; rw [hig]; exact h
+    · right; exact h
+  obtain ⟨hA0, hB0, xs, t', h3, h4, h5, h6, h7⟩ := hr
+  simp only [vwKV, vwKVP] at hA0 hB0 h3 h5 h6 h7
+  obtain ⟨hAr, hAs⟩ := kvRetP_none hA0
+  have hgA := executeNextItem_good c H.base.goodI (kvEnter c a.st (kvObj id kv)) (some (appendO nxB S)) (kvObj id kv) none
+  obtain ⟨hvA, hresA⟩ := kvStep_viewP (c := c) (item := item) (some (appendO nxB S)) id a kv h5 hAr hAs
+    (fun h => err_none_of_good hgA h)
+  obtain ⟨hvB, hresB⟩ := kvStep_view (c := c) (item := item) nxB id b kv (m ++ xs) h3 hB0 hi.2.1
+  rw [h6] at hvA hresA
+  have hj1 : Junc t' (kvEnter c b.st (kvObj id kv)) := h7
+  have hgB := executeNextItem_good c H.base.goodI (kvEnter c b.st (kvObj id kv)) nxB (kvObj id kv) (some (m ++ xs))
+  have hbB := executeNextItem_bud c H.base.budI (kvEnter c b.st (kvObj id kv)) nxB (kvObj id kv) (some (m ++ xs)) h7.2.2.2.2
+  have hcomp := executeNextItem_compP H (m ++ xs) nxB (kvObj id kv) hj1 hcn
+  rw [hvA, hvB]
+  rcases step_ofCallP h4 hj1 hcomp hgB hbB with h | h | h
+  · left
+    refine ⟨h, ?_⟩
+    have hnA := updP_ret_none h.retA
+    have hnB := upd_ret_none h.retB
+    obtain ⟨e1, e2⟩ := hresA hnA
+    obtain ⟨e3, e4⟩ := hresB hnB
+    exact ⟨⟨e2, e4, by rw [e3]; exact hnB⟩, e1⟩
+  · exact Or.inr (Or.inl h)
+  · exact Or.inr (Or.inr ⟨h, trivial⟩)
+
+theorem executeKeyValueMethod_compP (H : HypP c S Φ item bool any) {t sB : St} (m : List Item) (nB : Node)
+    (nx : Option Node) (v : Item) (unwrap : Bool) (hj : Junc t sB) (hc : ChainOK sB nB)
+    (hcx : ChainOKO sB nx) :
+    CompP c S Φ t m (executeKeyValueMethod c item any (mix t sB) (append nB S) (some (appendO nx S)) v none unwrap)
+      (executeKeyValueMethod c item any sB nB nx v (some m) unwrap) := by
+  cases v with
+  | obj kvs =>
+    rw [executeKeyValueMethod_obj, executeKeyValueMethod_obj]
+    refine compP_ite (fun _ => CompP.ofBoth _ _ _ _ _ (by simp)) (fun hne => ?_)
+    simp only [Option.isNone_some, Bool.and_false, Bool.false_and, Bool.false_eq_true, if_false]
+    have hcn' : t.ignoreSE = true ∨ NoAnyO nx = true := by
+      rcases hcx with h | h
+      · left; rw [hj.2.2.1]; exact h
+      · right; exact h
+    have eid : kvId c (mix t sB) (.obj kvs) = kvId c sB (.obj kvs) := rfl
+    rw [eid]
+    generalize kvId c sB (.obj kvs) = id
+    cases kvs with
+    | nil => simp at hne
+    | cons kv rest =>
+      simp only [List.foldl_cons]
+      have h0 : RunningP c S Φ t m (vwKVP ⟨mix t sB, none, .ok, none, false⟩) (vwKV ⟨sB, some m, .ok, none, false⟩) :=
+        ⟨rfl, rfl, [], t, by simp [vwKV], FeedNF.nil t, rfl, rfl, hj⟩
+      have h1 := kvStep_stepP H nx hcn' id ⟨mix t sB, none, .ok, none, false⟩ ⟨sB, some m, .ok, none, false⟩ kv h0
+        ⟨rfl, rfl, by simp⟩
+      have hfold := fold_compP (c := c) (S := S) (Φ := Φ) (t := t) (m := m)
+        (kvStep c item (some (appendO nx S)) id) (kvStep c item nx id) vwKVP vwKV IKVP (fun _ => True)
+        (fun a x h => kvStep_skipP _ _ a x h) (fun b x h => kvStep_skip _ _ b x h)
+        (fun a b x hr hi => kvStep_stepP H nx hcn' id a b x hr hi.1)
+        (foldl_grow (kvStep c item nx id) vwKV (fun _ => True) (fun b' x _ => ⟨kvStep_grow H.base nx id b' x, trivial⟩))
+        rest _ _ h1
+      rw [kvFin_eqP]
+      exact final_compP (c := c) (S := S) (Φ := Φ) (t := t) (m := m)
+        (fun st => { st with baseAddr := sB.baseAddr, baseId := sB.baseId }) (fun _ _ => rfl) (fun _ => ⟨rfl, rfl, rfl⟩)
+        (rest.foldl (kvStep c item (some (appendO nx S)) id)
+          (kvStep c item (some (appendO nx S)) id ⟨mix t sB, none, .ok, none, false⟩ kv)).res
+        (rest.foldl (kvStep c item nx id) (kvStep c item nx id ⟨sB, some m, .ok, none, false⟩ kv)).res
+        (fun hrun => by
+          rcases hfold with ⟨_, hi⟩ | ⟨rA, rB, e1, e2, _⟩ | ⟨rA, e1, _⟩
+          · exact ⟨⟨fun h => by rw [hi.2] at h; simp at h, fun h => absurd h hi.1.2.2⟩, by rw [hi.2]; simp⟩
+          · exact absurd (e1.symm.trans hrun.retA) (by simp)
+          · exact absurd (e1.symm.trans hrun.retA) (by simp))
+        (by rcases hfold with h | h | h
+            · exact Or.inl h.1
+            · exact Or.inr (Or.inl h)
+            · exact Or.inr (Or.inr h))
+  | arr xs =>
+    unfold executeKeyValueMethod
+    simp only [unwrapTargetArray]
+    exact compP_ite (fun _ => selfAny_compP H m nB xs hj hc) (fun _ => returnVerboseError_compP _ _ _)
+  | _ =>
+    unfold executeKeyValueMethod
+    exact returnVerboseError_compP _ _ _
+
+/-! ### node dispatch (probe mode) -/
+
+theorem execMethodNode_compP (H : HypP c S Φ item bool any) {t sB : St} (m : List Item) (nB : Node) (mth : Method)
+    (nx : Option Node) (v : Item) (unwrap : Bool) (hj : Junc t sB) (hc : ChainOK sB nB)
+    (hcx : ChainOKO sB nx) :
+    CompP c S Φ t m (execMethodNode c item any (mix t sB) (append nB S) mth (some (appendO nx S)) v none unwrap)
+      (execMethodNode c item any sB nB mth nx v (some m) unwrap) := by
+  unfold execMethodNode
+  cases mth <;> simp only
+  all_goals first
+    | exact execConvMethod_compP H m nB nx v unwrap _ hj hc hcx
+    | exact executeNextItem_compP H m nx _ hj hcx
+    | exact execMethodSize_compP H m nx v hj hcx
+    | exact executeKeyValueMethod_compP H m nB nx v unwrap hj hc hcx
+
+
+
+
+/-! ### `.**` and the generic element loop, probe mode -/
+
+theorem anyVisit_viewP {item : ItemK} (node : Node) (level first last : Nat) (ign un : Bool) (a : AAcc) (v : Item)
+    (hf : a.found = none) (s1 : St)
+    (hs1 : (if ign = true then ({ a.st with ignoreSE := true } : St) else a.st) = s1)
+    (hc : (level ≥ first || (first = maxU32 && last = maxU32 && (collection v).isNone)) = true) :
+    vwAny (anyVisit item (some node) level first last ign un a v) = updP (item s1 node v none un) ∧
+    ((item s1 node v none un).status = .notFound →
+      (anyVisit item (some node) level first last ign un a v).res = (item s1 node v none un).status ∧
+      (anyVisit item (some node) level first last ign un a v).err = (item s1 node v none un).err) := by
+  unfold anyVisit
+  rw [if_pos hc]
+  simp only [hf, hs1, Option.isNone_none, Bool.and_true, Bool.or_eq_true, decide_eq_true_eq]
+  by_cases h : (item s1 node v none un).status = .notFound
+  · have hcnd : ¬ ((item s1 node v none un).status = .failed ∨ (item s1 node v none un).status = .ok) := by
+      rw [h]; simp
+    rw [if_neg hcnd]
+    refine ⟨?_, fun _ => ⟨rfl, rfl⟩⟩
+    rw [updP_nf h]; rfl
+  · have hcnd : (item s1 node v none un).status = .failed ∨ (item s1 node v none un).status = .ok := by
+      cases hs : (item s1 node v none un).status <;> simp_all
+    rw [if_pos hcnd]
+    refine ⟨?_, fun hn => absurd hn h⟩
+    rw [updP_stop h]; rfl
+
+/-- the accumulator fields that matter only at the end -/
+def IAnyP (sB : St) (m : List Item) (a b : AAcc) : Prop := IAny sB m a b ∧ a.res ≠ .ok
+
+theorem anyVisit_stepP (H : HypP c S Φ item bool any) {t : St} {m : List Item} (nodeB : Option Node)
+    (level first last : Nat) (ign un : Bool) (a b : AAcc) (v : Item) (sB0 : St)
+    (hr : RunningP c S Φ t m (vwAny a) (vwAny b)) (hi : IAnyP sB0 m a b)
+    (hign' : ign = true → t.ignoreSE = true) (hcn' : t.ignoreSE = true ∨ NoAnyO nodeB = true)
+    (hun : nodeB = none → un = c.lax) :
+    (RunningP c S Φ t m (vwAny (anyVisit item (some (appendO nodeB S)) level first last ign un a v))
+        (vwAny (anyVisit item nodeB level first last ign un b v)) ∧
+      IAnyP sB0 m (anyVisit item (some (appendO nodeB S)) level first last ign un a v)
+        (anyVisit item nodeB level first last ign un b v)) ∨
+    BothP c S Φ t m (vwAny (anyVisit item (some (appendO nodeB S)) level first last ign un a v))
+        (vwAny (anyVisit item nodeB level first last ign un b v)) ∨
+    (StoppedP c S Φ t m (vwAny (anyVisit item (some (appendO nodeB S)) level first last ign un a v))
+        (vwAny (anyVisit item nodeB level first last ign un b v)) ∧
+      VAny sB0 m (anyVisit item nodeB level first last ign un b v)) := by
+  have hinvB : AInv sB0 (some m) (anyVisit item nodeB level first last ign un b v) :=
+    anyVisit_inv H.base.goodI nodeB level first last ign un sB0 (some m) b v hi.1.2.2.2.2 hr.retB
+  have hig : b.st.ignoreSE = t.ignoreSE := hr.ign
+  have hign : ign = true → b.st.ignoreSE = true := fun h => by rw [hig]; exact hign' h
+  have hcn : ChainOKO b.st nodeB := by
+    rcases hcn' with h | h
+    · left; rw [hig]; exact h
+    · right; exact h
+  by_cases hc : (level ≥ first || (first = maxU32 && last = maxU32 && (collection v).isNone)) = true
+  · obtain ⟨hA0, hB0, xs, t', h3, h4, h5, h6, h7⟩ := hr
+    simp only [vwAny] at hA0 hB0 h3 h5 h6 h7
+    have hsB : (if ign = true then ({ b.st with ignoreSE := true } : St) else b.st) = b.st := ignSt hign
+    have hsA : (if ign = true then ({ a.st with ignoreSE := true } : St) else a.st) = mix t' b.st := by
+      rw [ignSt (by rw [h6]; simpa using hign), h6]
+    obtain ⟨hvA, hresA⟩ := anyVisit_viewP (item := item) (appendO nodeB S) level first last ign un a v h5 _ hsA hc
+    have hgA := H.base.goodI (mix t' b.st) (appendO nodeB S) v none un
+    -- the call of the run of the prefix, or its junction
+    have key : ∃ rB : Res, vwAny (anyVisit item nodeB level first last ign un b v) = upd rB ∧
+        (rB.status ≠ .failed → (anyVisit item nodeB level first last ign un b v).res = rB.status ∧
+          (anyVisit item nodeB level first last ign un b v).err = rB.err) ∧
+        CompP c S Φ t' (m ++ xs) (item (mix t' b.st) (appendO nodeB S) v none un) rB ∧
+        Good b.st (some (m ++ xs)) rB ∧ rB.st.budget = none := by
+      cases nodeB with
+      | some n =>
+        obtain ⟨hvB, hresB⟩ := anyVisit_view (item := item) n level first last ign un b v (m ++ xs) h3 _ hsB hc
+        refine ⟨_, hvB, hresB, ?_, H.base.goodI _ _ _ _ _, H.base.budI _ _ _ _ _ h7.2.2.2.2⟩
+        exact H.ci b.st t' (m ++ xs) n v un h7 (by simpa [ChainOKO, ChainOK] using hcn)
+      | none =>
+        refine ⟨⟨b.st, some (m ++ xs ++ [v]), .ok, none⟩, ?_, ?_, ?_, ?_, h7.2.2.2.2⟩
+        · unfold anyVisit
+          rw [if_pos hc]
+          simp only [h3]
+          rw [upd_ok (by simp)]
+          simp [vwAny, hB0]
+        · intro _
+          unfold anyVisit
+          rw [if_pos hc]
+          simp only [h3, hi.1.2.2.2.1]
+          exact ⟨trivial, trivial⟩
+        · have := executeNextItem_compP H (m ++ xs) none v h7 (Or.inr rfl)
+          rw [hun rfl]
+          simpa [executeNextItem, executeItem, Found.append] using this
+        · exact Good.ret (Mid.refl _) ⟨by simp, fun l hl => ⟨[v], by simp at hl; subst hl; rfl⟩⟩ _ _ (by simp) (by simp)
+    obtain ⟨rB, hvB, hresB, hcomp, hgB, hbB⟩ := key
+    rw [hvA, hvB]
+    rcases step_ofCallP h4 h7 hcomp hgB hbB with h | h | h
+    · left
+      refine ⟨h, ?_⟩
+      have hnA := updP_ret_none h.retA
+      have hnB := upd_ret_none h.retB
+      obtain ⟨e1, e2⟩ := hresA hnA
+      obtain ⟨e3, e4⟩ := hresB hnB
+      exact ⟨⟨by rw [e1, hnA]; simp, by rw [e3]; exact hnB,
+        by rw [e2]; exact err_none_of_good hgA (by rw [hnA]; simp),
+        by rw [e4]; exact err_none_of_good hgB hnB, hinvB⟩, by rw [e1, hnA]; simp⟩
+    · exact Or.inr (Or.inl h)
+    · exact Or.inr (Or.inr ⟨h, hinvB⟩)
+  · left
+    have eA : anyVisit item (some (appendO nodeB S)) level first last ign un a v = a := by
+      unfold anyVisit; rw [if_neg hc]
+    have eB : anyVisit item nodeB level first last ign un b v = b := by
+      unfold anyVisit; rw [if_neg hc]
+    rw [eA, eB]
+    exact ⟨hr, hi⟩
+
+theorem anyDescend_viewP {any : AnyK} (node : Option Node) (level first last : Nat) (ign un : Bool) (a : AAcc) (v : Item)
+    (hf : a.found = none) (hc : level < last) :
+    vwAny (anyDescend any node level first last ign un a v)
+      = updP (any a.st node ((collection v).getD []) none (level + 1) first last ign un) ∧
+    ((any a.st node ((collection v).getD []) none (level + 1) first last ign un).status = .notFound →
+      (anyDescend any node level first last ign un a v).res
+        = (any a.st node ((collection v).getD []) none (level + 1) first last ign un).status ∧
+      (anyDescend any node level first last ign un a v).err
+        = (any a.st node ((collection v).getD []) none (level + 1) first last ign un).err) := by
+  unfold anyDescend
+  rw [if_pos hc]
+  simp only [hf, Option.isNone_none, Bool.and_true, Bool.or_eq_true, decide_eq_true_eq]
+  generalize any a.st node ((collection v).getD []) none (level + 1) first last ign un = r
+  by_cases h : r.status = .notFound
+  · have hcnd : ¬ (r.status = .failed ∨ r.status = .ok) := by rw [h]; simp
+    rw [if_neg hcnd]
+    refine ⟨?_, fun _ => ⟨rfl, rfl⟩⟩
+    rw [updP_nf h]; rfl
+  · have hcnd : r.status = .failed ∨ r.status = .ok := by
+      cases hs : r.status <;> simp_all
+    rw [if_pos hcnd]
+    refine ⟨?_, fun hn => absurd hn h⟩
+    rw [updP_stop h]; rfl
+
+theorem anyDescend_stepP (H : HypP c S Φ item bool any) {t : St} {m : List Item} (nodeB : Option Node)
+    (level first last : Nat) (ign un : Bool) (a b : AAcc) (v : Item) (sB0 : St)
+    (hr : RunningP c S Φ t m (vwAny a) (vwAny b)) (hi : IAnyP sB0 m a b)
+    (hign' : ign = true → t.ignoreSE = true) (hcn' : t.ignoreSE = true ∨ NoAnyO nodeB = true)
+    (hun : nodeB = none → un = c.lax) :
+    (RunningP c S Φ t m (vwAny (anyDescend any (some (appendO nodeB S)) level first last ign un a v))
+        (vwAny (anyDescend any nodeB level first last ign un b v)) ∧
+      IAnyP sB0 m (anyDescend any (some (appendO nodeB S)) level first last ign un a v)
+        (anyDescend any nodeB level first last ign un b v)) ∨
+    BothP c S Φ t m (vwAny (anyDescend any (some (appendO nodeB S)) level first last ign un a v))
+        (vwAny (anyDescend any nodeB level first last ign un b v)) ∨
+    (StoppedP c S Φ t m (vwAny (anyDescend any (some (appendO nodeB S)) level first last ign un a v))
+        (vwAny (anyDescend any nodeB level first last ign un b v)) ∧
+      VAny sB0 m (anyDescend any nodeB level first last ign un b v)) := by
+  have hinvB : AInv sB0 (some m) (anyDescend any nodeB level first last ign un b v) :=
+    anyDescend_inv H.base.goodA nodeB level first last ign un sB0 (some m) b v hi.1.2.2.2.2 hr.retB
+  have hig : b.st.ignoreSE = t.ignoreSE := hr.ign
+  have hign : ign = true → b.st.ignoreSE = true := fun h => by rw [hig]; exact hign' h
+  have hcn : ChainOKO b.st nodeB := by
+    rcases hcn' with h | h
+    · left; rw [hig]; exact h
+    · right; exact h
+  by_cases hc : level < last
+  · obtain ⟨hA0, hB0, xs, t', h3, h4, h5, h6, h7⟩ := hr
+    simp only [vwAny] at hA0 hB0 h3 h5 h6 h7
+    obtain ⟨hvA, hresA⟩ := anyDescend_viewP (any := any) (some (appendO nodeB S)) level first last ign un a v h5 hc
+    obtain ⟨hvB, hresB⟩ := anyDescend_view (any := any) nodeB level first last ign un b v (m ++ xs) h3 hc
+    rw [h6] at hvA hresA
+    have hgA := H.base.goodA (mix t' b.st) (some (appendO nodeB S)) ((collection v).getD []) none (level + 1) first last ign un
+    have hgB := H.base.goodA b.st nodeB ((collection v).getD []) (some (m ++ xs)) (level + 1) first last ign un
+    have hbB := H.base.budA b.st nodeB ((collection v).getD []) (some (m ++ xs)) (level + 1) first last ign un h7.2.2.2.2
+    have hcomp := H.ca b.st t' (m ++ xs) nodeB ((collection v).getD []) (level + 1) first last ign un h7 hcn hign hun
+    rw [hvA, hvB]
+    rcases step_ofCallP h4 h7 hcomp hgB hbB with h | h | h
+    · left
+      refine ⟨h, ?_⟩
+      have hnA := updP_ret_none h.retA
+      have hnB := upd_ret_none h.retB
+      obtain ⟨e1, e2⟩ := hresA hnA
+      obtain ⟨e3, e4⟩ := hresB hnB
+      exact ⟨⟨by rw [e1, hnA]; simp, by rw [e3]; exact hnB,
+        by rw [e2]; exact err_none_of_good hgA (by rw [hnA]; simp),
+        by rw [e4]; exact err_none_of_good hgB hnB, hinvB⟩, by rw [e1, hnA]; simp⟩
+    · exact Or.inr (Or.inl h)
+    · exact Or.inr (Or.inr ⟨h, hinvB⟩)
+  · left
+    have eA : anyDescend any (some (appendO nodeB S)) level first last ign un a v = a := by
+      unfold anyDescend; rw [if_neg hc]
+    have eB : anyDescend any nodeB level first last ign un b v = b := by
+      unfold anyDescend; rw [if_neg hc]
+    rw [eA, eB]
+    exact ⟨hr, hi⟩
+
+theorem anyStep_stepP (H : HypP c S Φ item bool any) {t : St} {m : List Item} (nodeB : Option Node)
+    (level first last : Nat) (ign un : Bool) (sB0 : St)
+    (hign' : ign = true → t.ignoreSE = true) (hcn' : t.ignoreSE = true ∨ NoAnyO nodeB = true)
+    (hun : nodeB = none → un = c.lax) (a b : AAcc) (v : Item)
+    (hr : RunningP c S Φ t m (vwAny a) (vwAny b)) (hi : IAnyP sB0 m a b) :
+    (RunningP c S Φ t m (vwAny (anyStep item any (some (appendO nodeB S)) level first last ign un a v))
+        (vwAny (anyStep item any nodeB level first last ign un b v)) ∧
+      IAnyP sB0 m (anyStep item any (some (appendO nodeB S)) level first last ign un a v)
+        (anyStep item any nodeB level first last ign un b v)) ∨
+    BothP c S Φ t m (vwAny (anyStep item any (some (appendO nodeB S)) level first last ign un a v))
+        (vwAny (anyStep item any nodeB level first last ign un b v)) ∨
+    (StoppedP c S Φ t m (vwAny (anyStep item any (some (appendO nodeB S)) level first last ign un a v))
+        (vwAny (anyStep item any nodeB level first last ign un b v)) ∧
+      VAny sB0 m (anyStep item any nodeB level first last ign un b v)) := by
+  have hA0 : a.ret = none := hr.retA
+  have hB0 : b.ret = none := hr.retB
+  have h1 := anyVisit_stepP H nodeB level first last ign un a b v sB0 hr hi hign' hcn' hun
+  unfold anyStep
+  simp only [hA0, hB0]
+  generalize anyVisit item (some (appendO nodeB S)) level first last ign un a v = a1 at h1
+  generalize anyVisit item nodeB level first last ign un b v = b1 at h1
+  rcases h1 with ⟨hr1, hi1⟩ | hb | ⟨hfl, hv⟩
+  · have e1 : a1.ret = none := hr1.retA
+    have e2 : b1.ret = none := hr1.retB
+    simp only [e1, e2]
+    exact anyDescend_stepP H nodeB level first last ign un a1 b1 v sB0 hr1 hi1 hign' hcn' hun
+  · obtain ⟨rA, rB, e1, e2, h3⟩ := hb
+    simp only [vwAny] at e1 e2
+    simp only [e1, e2]
+    exact Or.inr (Or.inl ⟨rA, rB, e1, e2, h3⟩)
+  · obtain ⟨rA, e1, h3⟩ := hfl
+    simp only [vwAny] at e1
+    simp only [e1]
+    right; right
+    cases e2 : b1.ret with
+    | some rB =>
+      simp only
+      exact ⟨⟨rA, e1, h3⟩, hv⟩
+    | none =>
+      simp only
+      have hg := anyDescend_grow H.base nodeB level first last ign un b1 v e2
+      exact ⟨⟨rA, e1, h3.grow hg.1 hg.2⟩,
+        anyDescend_inv H.base.goodA nodeB level first last ign un sB0 (some m) b1 v hv e2⟩
+
+theorem executeAnyItem_compP (H : HypP c S Φ item bool any) {t sB : St} (m : List Item) (nodeB : Option Node)
+    (vs : List Item) (level first last : Nat) (ign un : Bool) (hj : Junc t sB) (hcn : ChainOKO sB nodeB)
+    (hign : ign = true → sB.ignoreSE = true) (hun : nodeB = none → un = c.lax) :
+    CompP c S Φ t m
+      (executeAnyItem item any (mix t sB) (some (appendO nodeB S)) vs none level first last ign un)
+      (executeAnyItem item any sB nodeB vs (some m) level first last ign un) := by
+  rw [executeAnyItem_eq, executeAnyItem_eq]
+  refine compP_ite (fun _ => CompP.ofBoth _ _ _ _ _ (by simp)) (fun _ => ?_)
+  have hign' : ign = true → t.ignoreSE = true := fun h => by rw [hj.2.2.1]; exact hign h
+  have hcn' : t.ignoreSE = true ∨ NoAnyO nodeB = true := by
+    rcases hcn with h | h
+    · left; rw [hj.2.2.1]; exact h
+    · right; exact h
+  have hinv0 : AInv sB (some m) ⟨sB, some m, .notFound, none, none⟩ := by
+    refine ⟨fun r hr => by simp at hr, fun _ => ⟨⟨?_, fun h => by simpa [Exec.restoreIgn] using h⟩, Shape.refl _, rfl⟩⟩
+    simp [St.ctxEq, Exec.restoreIgn]
+  have hinvB : AInv sB (some m) (vs.foldl (anyStep item any nodeB level first last ign un) ⟨sB, some m, .notFound, none, none⟩) :=
+    foldl_inv (AInv sB (some m)) _ _ _ hinv0 (fun a v h => anyStep_inv H.base.goodI H.base.goodA nodeB level first last ign un sB (some m) a v h)
+  have h0 : RunningP c S Φ t m (vwAny ⟨mix t sB, none, .notFound, none, none⟩) (vwAny ⟨sB, some m, .notFound, none, none⟩) :=
+    ⟨rfl, rfl, [], t, by simp [vwAny], FeedNF.nil t, rfl, rfl, hj⟩
+  have hi0 : IAnyP sB m ⟨mix t sB, none, .notFound, none, none⟩ ⟨sB, some m, .notFound, none, none⟩ :=
+    ⟨⟨by simp, by simp, rfl, rfl, hinv0⟩, by simp⟩
+  have hfold := fold_compP (c := c) (S := S) (Φ := Φ) (t := t) (m := m)
+    (anyStep item any (some (appendO nodeB S)) level first last ign un)
+    (anyStep item any nodeB level first last ign un) vwAny vwAny (IAnyP sB m) (VAny sB m)
+    (fun a x h => anyStep_skip _ _ _ _ _ _ a x h) (fun b x h => anyStep_skip _ _ _ _ _ _ b x h)
+    (fun a b x hr hi => anyStep_stepP H nodeB level first last ign un sB hign' hcn' hun a b x hr hi)
+    (foldl_grow _ vwAny (VAny sB m) (fun b x hV => anyStep_grow H.base nodeB level first last ign un sB m b x hV))
+    vs _ _ (Or.inl ⟨h0, hi0⟩)
+  generalize vs.foldl (anyStep item any (some (appendO nodeB S)) level first last ign un) ⟨mix t sB, none, .notFound, none, none⟩ = aA at hfold
+  generalize vs.foldl (anyStep item any nodeB level first last ign un) ⟨sB, some m, .notFound, none, none⟩ = aB at hfold hinvB
+  have herrB : aB.ret = none → aB.err = none := fun h => (hinvB.2 h).2.2
+  have herrA : aA.ret = none → aA.err = none := by
+    intro h
+    rcases hfold with ⟨_, hi⟩ | ⟨rA, _, e, _⟩ | ⟨rA, e, _⟩
+    · exact hi.1.2.2.1
+    · simp [vwAny, h] at e
+    · simp [vwAny, h] at e
+  rw [anyFin_eq_fin _ _ aA herrA, anyFin_eq_fin _ _ aB herrB]
+  refine final_compP (fun st => { st with ignoreSE := sB.ignoreSE }) (fun _ _ => rfl) (fun _ => ⟨rfl, rfl, rfl⟩) _ _ ?_
+    (by rcases hfold with h | h | h
+        · exact Or.inl h.1
+        · exact Or.inr (Or.inl h)
+        · exact Or.inr (Or.inr h))
+  intro hrun
+  have hfA : aA.found = none := by
+    obtain ⟨_, _, xs, t', _, _, h5, _⟩ := hrun
+    exact h5
+  have eA : anyRes none aA = aA.res := by unfold anyRes; simp [hfA]
+  rcases hfold with ⟨_, hi⟩ | ⟨rA, rB, e1, e2, _⟩ | ⟨rA, e1, _⟩
+  · have h1 := hi.1.1
+    have h2 := hi.1.2.1
+    rw [eA]
+    refine ⟨⟨fun h => absurd h h1, ?_⟩, hi.2⟩
+    intro h; unfold anyRes at h; split at h
+    · simp at h
+    · exact absurd h h2
+  · have := hrun.retA; simp [e1] at this
+  · have := hrun.retA; simp [e1] at this
+
+
+theorem anyInto_compP (H : HypP c S Φ item bool any) {t sB : St} (m : List Item) (first last : Nat)
+    (nx : Option Node) (v : Item) (hj : Junc t sB) (hign : sB.ignoreSE = true) :
+    CompP c S Φ t m (anyInto c any (mix t sB) first last (some (appendO nx S)) v none)
+      (anyInto c any sB first last nx v (some m)) := by
+  unfold anyInto
+  cases v with
+  | obj kvs => exact H.ca sB t m nx (members kvs) 1 first last true c.lax hj (Or.inl hign) (fun _ => hign) (fun _ => rfl)
+  | arr xs => exact H.ca sB t m nx xs 1 first last true c.lax hj (Or.inl hign) (fun _ => hign) (fun _ => rfl)
+  | _ => exact CompP.ofBoth _ _ _ _ _ (by simp)
+
+theorem execAnyNode_compP (H : HypP c S Φ item bool any) {t sB : St} (m : List Item) (first last : Nat)
+    (nx : Option Node) (v : Item) (hj : Junc t sB) (hign : sB.ignoreSE = true) :
+    CompP c S Φ t m (execAnyNode c item any (mix t sB) first last (some (appendO nx S)) v none)
+      (execAnyNode c item any sB first last nx v (some m)) := by
+  unfold execAnyNode
+  refine compP_ite (fun _ => ?_) (fun _ => anyInto_compP H m first last nx v hj hign)
+  have eA : ({ mix t sB with ignoreSE := true } : St) = mix t sB := setIgn_eq (by simpa using hign)
+  have eB : ({ sB with ignoreSE := true } : St) = sB := setIgn_eq hign
+  rw [eA, eB]
+  simp only [Option.isNone_some, Option.isNone_none, Bool.and_true, Bool.and_false, Bool.or_false, Bool.or_eq_true,
+    decide_eq_true_eq, mix_ignoreSE]
+  have hc1 := executeNextItem_compP H m nx v hj (Or.inl hign)
+  have hgB := executeNextItem_good c H.base.goodI sB nx v (some m)
+  have hbB := executeNextItem_bud c H.base.budI sB nx v (some m) hj.2.2.2.2
+  generalize executeNextItem c item (mix t sB) (some (appendO nx S)) v none = rA at hc1
+  generalize executeNextItem c item sB nx v (some m) = rB at hc1 hgB hbB
+  have hfr : ∀ {A B : Res}, CompP c S Φ t m A B →
+      CompP c S Φ t m { A with st := { A.st with ignoreSE := sB.ignoreSE } } { B with st := { B.st with ignoreSE := sB.ignoreSE } } :=
+    fun h => CompP.frame (fun st => { st with ignoreSE := sB.ignoreSE }) (fun _ _ => rfl) (fun _ => ⟨rfl, rfl, rfl⟩) h
+  rcases hc1 with hok | hstop
+  · obtain ⟨xs, t', h1, h2, h3, h4, h5, h6, h7⟩ := hok
+    by_cases hB : rB.status = .failed
+    · have hcA : rA.status = .failed ∨ rA.status = .ok := Or.inl (h6.2 hB)
+      rw [if_pos hcA, if_pos hB]
+      exact hfr (Or.inl ⟨xs, t', h1, h2, h3, h4, h5, h6, h7⟩)
+    · have hA : ¬ rA.status = .failed := fun h => hB (h6.1 h)
+      have hcA : ¬ (rA.status = .failed ∨ rA.status = .ok) := fun h => h.elim hA h7
+      rw [if_neg hcA, if_neg hB]
+      have hj' : Junc t' rB.st := (h2.junc c S Φ hj).ofCtx hgB.ctx hbB
+      have hign' : rB.st.ignoreSE = true := by
+        have := hgB.ctx; simp [St.ctxEq] at this; rw [this.2.2.2.2.1]; exact hign
+      have h7' := anyInto_compP H (m ++ xs) first last nx v hj' hign'
+      rw [h3, h4, h1]
+      refine hfr ?_
+      rcases h7' with h7' | h7'
+      · exact Or.inl (CompOkP.rebase h2 h7')
+      · exact Or.inr (CompStopP.rebase h2 h7')
+  · have hcA : rA.status = .failed ∨ rA.status = .ok := by
+      obtain ⟨_, _, _, _, F, _, _, _, h4, h5, _⟩ := hstop
+      rw [h5]
+      cases hs : F.status <;> simp_all
+    rw [if_pos hcA]
+    by_cases hB : rB.status = .failed
+    · rw [if_pos hB]
+      exact hfr (Or.inr hstop)
+    · rw [if_neg hB]
+      have hg := anyInto_grow H.base rB.st first last nx v rB.found
+      exact hfr (A := rA) (B := anyInto c any rB.st first last nx v rB.found) (Or.inr (hstop.grow hg.1 hg.2))
+
+/-! ### subscripts, probe mode -/
+
+def IIdxP (a b : IAcc) : Prop := IIdx a b ∧ a.res ≠ .ok
+
+theorem indexElemStep_viewP {item : ItemK} (nx : Node) (a : IAcc) (v : Item)
+    (hf : a.found = none) (hr : a.ret = none) (hv : v ≠ .null) :
+    vwIdx (indexElemStep c item (some nx) a v) = updP (executeNextItem c item a.st (some nx) v none) ∧
+    ((executeNextItem c item a.st (some nx) v none).status = .notFound →
+      (indexElemStep c item (some nx) a v).res = (executeNextItem c item a.st (some nx) v none).status) := by
+  unfold indexElemStep
+  simp only [hr, Option.isSome_none, Bool.false_eq_true, if_false]
+  cases v with
+  | null => exact absurd rfl hv
+  | _ =>
+    simp only [hf, Option.isNone_some, Option.isNone_none, Bool.and_true, Bool.false_eq_true, if_false,
+      Bool.or_eq_true, decide_eq_true_eq]
+    generalize executeNextItem c item a.st (some nx) _ none = r
+    by_cases h : r.status = .notFound
+    · have hcnd : ¬ (r.status = .failed ∨ r.status = .ok) := by rw [h]; simp
+      rw [if_neg hcnd]
+      refine ⟨?_, fun _ => rfl⟩
+      rw [updP_nf h]; rfl
+    · have hcnd : r.status = .failed ∨ r.status = .ok := by
+        cases hs : r.status <;> simp_all
+      rw [if_pos hcnd]
+      refine ⟨?_, fun hn => absurd hn h⟩
+      rw [updP_stop h]; rfl
+
+theorem indexElemStep_stepP (H : HypP c S Φ item bool any) {t : St} {m : List Item} (nxB : Option Node)
+    (hcn' : t.ignoreSE = true ∨ NoAnyO nxB = true) (a b : IAcc) (v : Item)
+    (hr : RunningP c S Φ t m (vwIdx a) (vwIdx b)) (hi : IIdxP a b) :
+    (RunningP c S Φ t m (vwIdx (indexElemStep c item (some (appendO nxB S)) a v)) (vwIdx (indexElemStep c item nxB b v)) ∧
+      IIdxP (indexElemStep c item (some (appendO nxB S)) a v) (indexElemStep c item nxB b v)) ∨
+    BothP c S Φ t m (vwIdx (indexElemStep c item (some (appendO nxB S)) a v)) (vwIdx (indexElemStep c item nxB b v)) ∨
+    (StoppedP c S Φ t m (vwIdx (indexElemStep c item (some (appendO nxB S)) a v)) (vwIdx (indexElemStep c item nxB b v)) ∧
+      True) := by
+  have hig : b.st.ignoreSE = t.ignoreSE := hr.ign
+  have hcn : ChainOKO b.st nxB := by
+    rcases hcn' with h | h
+    · left; rw [hig]; exact h
+    · right; exact h
+  by_cases hv : v = .null
+  · subst hv
+    have eA : indexElemStep c item (some (appendO nxB S)) a .null = a := by
+      unfold indexElemStep; split <;> rfl
+    have eB : indexElemStep c item nxB b .null = b := by
+      unfold indexElemStep; split <;> rfl
+    rw [eA, eB]
+    exact Or.inl ⟨hr, hi⟩
+  · obtain ⟨hA0, hB0, xs, t', h3, h4, h5, h6, h7⟩ := hr
+    simp only [vwIdx] at hA0 hB0 h3 h5 h6 h7
+    obtain ⟨hvA, hresA⟩ := indexElemStep_viewP (c := c) (item := item) (appendO nxB S) a v h5 hA0 hv
+    obtain ⟨hvB, hresB⟩ := indexElemStep_view (c := c) (item := item) nxB b v (m ++ xs) h3 hB0 hv
+    rw [h6] at hvA hresA
+    have hgB := executeNextItem_good c H.base.goodI b.st nxB v (some (m ++ xs))
+    have hbB := executeNextItem_bud c H.base.budI b.st nxB v (some (m ++ xs)) h7.2.2.2.2
+    have hcomp := executeNextItem_compP H (m ++ xs) nxB v h7 hcn
+    rw [hvA, hvB]
+    rcases step_ofCallP h4 h7 hcomp hgB hbB with h | h | h
+    · left
+      refine ⟨h, ?_⟩
+      have hnA := updP_ret_none h.retA
+      have hnB := upd_ret_none h.retB
+      exact ⟨⟨by rw [hresA hnA, hnA]; simp, by rw [hresB hnB]; exact hnB⟩, by rw [hresA hnA, hnA]; simp⟩
+    · exact Or.inr (Or.inl h)
+    · exact Or.inr (Or.inr ⟨h, trivial⟩)
+
+theorem indexSubStep_stepP (H : HypP c S Φ item bool any) {t : St} {m : List Item} (nxB : Option Node)
+    (hcn' : t.ignoreSE = true ∨ NoAnyO nxB = true) (ys : List Item) (v : Item) (a b : IAcc) (sub : Node)
+    (hr : RunningP c S Φ t m (vwIdx a) (vwIdx b)) (hi : IIdxP a b) :
+    (RunningP c S Φ t m (vwIdx (indexSubStep c item (some (appendO nxB S)) ys v a sub))
+        (vwIdx (indexSubStep c item nxB ys v b sub)) ∧
+      IIdxP (indexSubStep c item (some (appendO nxB S)) ys v a sub) (indexSubStep c item nxB ys v b sub)) ∨
+    BothP c S Φ t m (vwIdx (indexSubStep c item (some (appendO nxB S)) ys v a sub))
+        (vwIdx (indexSubStep c item nxB ys v b sub)) ∨
+    (StoppedP c S Φ t m (vwIdx (indexSubStep c item (some (appendO nxB S)) ys v a sub))
+        (vwIdx (indexSubStep c item nxB ys v b sub)) ∧ True) := by
+  obtain ⟨hA0, hB0, xs, t', h3, h4, h5, h6, h7⟩ := hr
+  simp only [vwIdx] at hA0 hB0 h3 h5 h6 h7
+  have hj1 := h7.subscript H.base sub v ys.length
+  unfold indexSubStep
+  simp only [hA0, hB0, Option.isSome_none, Bool.false_eq_true, if_false]
+  rw [h6, H.base.subscript]
+  generalize execSubscript c item b.st sub v ys.length = p at hj1
+  obtain ⟨s1, e1⟩ := p
+  cases e1 with
+  | error e =>
+    simp only
+    right; left
+    refine ⟨_, _, rfl, rfl, ?_⟩
+    rw [h5, h3]
+    exact CompOkP.rebase h4 (returnError_compOkP _ _ _ _)
+  | ok ft =>
+    obtain ⟨from_, to_⟩ := ft
+    simp only
+    have hrun : RunningP c S Φ t m (vwIdx { a with st := mix t' s1 }) (vwIdx { b with st := s1 }) :=
+      ⟨hA0, hB0, xs, t', h3, h4, h5, rfl, hj1⟩
+    have hfold := fold_compP (c := c) (S := S) (Φ := Φ) (t := t) (m := m)
+      (indexElemStep c item (some (appendO nxB S))) (indexElemStep c item nxB) vwIdx vwIdx IIdxP (fun _ => True)
+      (fun a x h => indexElemStep_skip _ a x h) (fun b x h => indexElemStep_skip _ b x h)
+      (fun a b x hr hi => indexElemStep_stepP H nxB hcn' a b x hr hi)
+      (foldl_grow (indexElemStep c item nxB) vwIdx (fun _ => True)
+        (fun b' x _ => ⟨indexElemStep_grow H.base nxB b' x, trivial⟩))
+      (sliceRange ys from_ to_) _ _ (Or.inl ⟨hrun, hi⟩)
+    simp only [hA0, hB0] at hfold
+    rcases hfold with h | h | h
+    · exact Or.inl h
+    · exact Or.inr (Or.inl h)
+    · exact Or.inr (Or.inr ⟨h, trivial⟩)
+
+theorem execArrayIndex_compP (H : HypP c S Φ item bool any) {t sB : St} (m : List Item) (subs : List Node)
+    (nx : Option Node) (v : Item) (hj : Junc t sB) (hcx : ChainOKO sB nx) :
+    CompP c S Φ t m (execArrayIndex c item (mix t sB) subs (some (appendO nx S)) v none)
+      (execArrayIndex c item sB subs nx v (some m)) := by
+  unfold execArrayIndex
+  cases harr : arrayOf c v with
+  | none => exact returnVerboseError_compP _ _ _
+  | some ys =>
+    simp only
+    have hcn' : t.ignoreSE = true ∨ NoAnyO nx = true := by
+      rcases hcx with h | h
+      · left; rw [hj.2.2.1]; exact h
+      · right; exact h
+    have hj0 : Junc t { sB with innermost := ys.length } := hj
+    have h0 : RunningP c S Φ t m (vwIdx ⟨mix t { sB with innermost := ys.length }, none, .notFound, none, none⟩)
+        (vwIdx ⟨{ sB with innermost := ys.length }, some m, .notFound, none, none⟩) :=
+      ⟨rfl, rfl, [], t, by simp [vwIdx], FeedNF.nil t, rfl, rfl, hj0⟩
+    have hfold := fold_compP (c := c) (S := S) (Φ := Φ) (t := t) (m := m)
+      (indexSubStep c item (some (appendO nx S)) ys v) (indexSubStep c item nx ys v) vwIdx vwIdx IIdxP (fun _ => True)
+      (fun a x h => indexSubStep_skip _ _ _ a x h) (fun b x h => indexSubStep_skip _ _ _ b x h)
+      (fun a b x hr hi => indexSubStep_stepP H nx hcn' ys v a b x hr hi)
+      (foldl_grow (indexSubStep c item nx ys v) vwIdx (fun _ => True)
+        (fun b' x _ => ⟨indexSubStep_grow H.base nx ys v b' x, trivial⟩))
+      subs _ _ (Or.inl ⟨h0, ⟨⟨by simp, by simp⟩, by simp⟩⟩)
+    have hfin := final_compP (c := c) (S := S) (Φ := Φ) (t := t) (m := m)
+      (fun st => { st with innermost := sB.innermost }) (fun _ _ => rfl) (fun _ => ⟨rfl, rfl, rfl⟩)
+      (subs.foldl (indexSubStep c item (some (appendO nx S)) ys v) ⟨mix t { sB with innermost := ys.length }, none, .notFound, none, none⟩).res
+      (subs.foldl (indexSubStep c item nx ys v) ⟨{ sB with innermost := ys.length }, some m, .notFound, none, none⟩).res
+      (fun hrun => by
+        rcases hfold with ⟨_, hi⟩ | ⟨rA, rB, e1, e2, _⟩ | ⟨rA, e1, _⟩
+        · exact ⟨⟨fun h => absurd h hi.1.1, fun h => absurd h hi.1.2⟩, hi.2⟩
+        · exact absurd (e1.symm.trans hrun.retA) (by simp)
+        · exact absurd (e1.symm.trans hrun.retA) (by simp))
+      (by rcases hfold with h | h | h
+          · exact Or.inl h.1
+          · exact Or.inr (Or.inl h)
+          · exact Or.inr (Or.inr h))
+    exact hfin
+
+
+/-! ### node dispatch, probe mode -/
+
+theorem execBinaryNode_compP (H : HypP c S Φ item bool any) {t sB : St} (m : List Item) (nB : Node) (op : BinOp)
+    (lo ro nx : Option Node) (v : Item) (unwrap : Bool) (hj : Junc t sB) (hc : ChainOK sB nB)
+    (hcx : ChainOKO sB nx) :
+    CompP c S Φ t m
+      (execBinaryNode c item bool any (mix t sB) (append nB S) op lo ro (some (appendO nx S)) v none unwrap)
+      (execBinaryNode c item bool any sB nB op lo ro nx v (some m) unwrap) := by
+  unfold execBinaryNode
+  refine compP_ite (fun _ => boolNode_compP H m nB nx v hj hcx) (fun _ => ?_)
+  refine compP_ite (fun _ => execBinaryMathExpr_compP H m op lo ro nx v hj hcx) (fun _ => ?_)
+  cases op <;> simp only
+  all_goals first
+    | exact execConvMethod_compP H m nB nx v unwrap _ hj hc hcx
+    | exact CompP.ofBoth _ _ _ _ _ (by simp)
+
+theorem filterTail_compP (H : HypP c S Φ item bool any) {t sB : St} (m : List Item) (cond : Node)
+    (nx : Option Node) (v : Item) (hj : Junc t sB) (hcx : ChainOKO sB nx) :
+    CompP c S Φ t m
+      (let p := executeNestedBoolItem bool (mix t sB) cond v
+       if p.err.isSome then ⟨p.st, none, .failed, p.err⟩
+       else if p.out ≠ .t then ⟨p.st, none, .notFound, none⟩
+       else executeNextItem c item p.st (some (appendO nx S)) v none)
+      (let p := executeNestedBoolItem bool sB cond v
+       if p.err.isSome then ⟨p.st, some m, .failed, p.err⟩
+       else if p.out ≠ .t then ⟨p.st, some m, .notFound, none⟩
+       else executeNextItem c item p.st nx v (some m)) := by
+  have hp := executeNestedBoolItem_good H.base.goodB sB cond v
+  have hpb := executeNestedBoolItem_bud H.base.budB sB cond v hj.2.2.2.2
+  simp only [H.base.nestedBool, mixP_err, mixP_st, mixP_out]
+  generalize executeNestedBoolItem bool sB cond v = p at hp hpb
+  refine compP_ite (fun _ => CompP.ofBoth _ _ _ _ _ (by simp)) (fun _ => ?_)
+  refine compP_ite (fun _ => CompP.ofBoth _ _ _ _ _ (by simp)) (fun _ => ?_)
+  exact executeNextItem_compP H m nx v (hj.goodP hp hpb) (hcx.ofCtx hp.ctx)
+
+theorem execUnaryNode_compP (H : HypP c S Φ item bool any) {t sB : St} (m : List Item) (nB : Node) (op : UnOp)
+    (x nx : Option Node) (v : Item) (unwrap : Bool) (hj : Junc t sB) (hc : ChainOK sB nB)
+    (hcx : ChainOKO sB nx) :
+    CompP c S Φ t m
+      (execUnaryNode c item bool any (mix t sB) (append nB S) op x (some (appendO nx S)) v none unwrap)
+      (execUnaryNode c item bool any sB nB op x nx v (some m) unwrap) := by
+  have hsa : ∀ xs : List Item, CompP c S Φ t m (any (mix t sB) (some (append nB S)) xs none 1 1 1 false false)
+      (any sB (some nB) xs (some m) 1 1 1 false false) := fun xs => selfAny_compP H m nB xs hj hc
+  unfold execUnaryNode
+  cases op with
+  | not => exact boolNode_compP H m nB nx v hj hcx
+  | isUnknown => exact boolNode_compP H m nB nx v hj hcx
+  | «exists» => exact boolNode_compP H m nB nx v hj hcx
+  | plus => exact execUnaryMathExpr_compP H m x nx v _ hj hcx
+  | minus => exact execUnaryMathExpr_compP H m x nx v _ hj hcx
+  | filter =>
+    simp only
+    cases x with
+    | none =>
+      cases v <;> cases unwrap <;> first
+        | exact hsa _
+        | exact CompP.ofBoth _ _ _ _ _ (by simp)
+    | some cond =>
+      have tl := filterTail_compP H m cond nx v hj hcx
+      cases v <;> cases unwrap <;> first
+        | exact hsa _
+        | exact tl
+  | datetime =>
+    simp only
+    have tl := executeDateTimeMethod_compP H m .datetime x nx v hj hcx
+    cases v <;> cases unwrap <;> first | exact hsa _ | exact tl
+  | date =>
+    simp only
+    have tl := executeDateTimeMethod_compP H m .date x nx v hj hcx
+    cases v <;> cases unwrap <;> first | exact hsa _ | exact tl
+  | time =>
+    simp only
+    have tl := executeDateTimeMethod_compP H m .time x nx v hj hcx
+    cases v <;> cases unwrap <;> first | exact hsa _ | exact tl
+  | timeTZ =>
+    simp only
+    have tl := executeDateTimeMethod_compP H m .timeTZ x nx v hj hcx
+    cases v <;> cases unwrap <;> first | exact hsa _ | exact tl
+  | timestamp =>
+    simp only
+    have tl := executeDateTimeMethod_compP H m .timestamp x nx v hj hcx
+    cases v <;> cases unwrap <;> first | exact hsa _ | exact tl
+  | timestampTZ =>
+    simp only
+    have tl := executeDateTimeMethod_compP H m .timestampTZ x nx v hj hcx
+    cases v <;> cases unwrap <;> first | exact hsa _ | exact tl
+
+theorem dispatch_compP (H : HypP c S Φ item bool any) {t sB : St} (m : List Item) (n : Node) (v : Item) (u : Bool)
+    (hj : Junc t sB) (hc : ChainOK sB n) :
+    CompP c S Φ t m (dispatch c item bool any (mix t sB) (append n S) v none u)
+      (dispatch c item bool any sB n v (some m) u) := by
+  have hcx := hc.next
+  cases n with
+  | const k nx =>
+    have e : dispatch c item bool any (mix t sB) (append (.const k nx) S) v none u
+        = execConstNode c item any (mix t sB) (append (.const k nx) S) k (some (appendO nx S)) v none u := by
+      simp only [append, dispatch]
+    rw [e]; exact execConstNode_compP H m _ k nx v u hj hc hcx
+  | str tx nx =>
+    have e : dispatch c item bool any (mix t sB) (append (.str tx nx) S) v none u
+        = execLiteral c item (mix t sB) (some (appendO nx S)) (.str tx) none := by
+      simp only [append, dispatch]
+    rw [e]; exact execLiteral_compP H m nx _ hj hcx
+  | integer i nx =>
+    have e : dispatch c item bool any (mix t sB) (append (.integer i nx) S) v none u
+        = execLiteral c item (mix t sB) (some (appendO nx S)) (.int i) none := by
+      simp only [append, dispatch]
+    rw [e]; exact execLiteral_compP H m nx _ hj hcx
+  | numeric x nx =>
+    have e : dispatch c item bool any (mix t sB) (append (.numeric x nx) S) v none u
+        = execLiteral c item (mix t sB) (some (appendO nx S)) (.flt x) none := by
+      simp only [append, dispatch]
+    rw [e]; exact execLiteral_compP H m nx _ hj hcx
+  | var name nx =>
+    have e : dispatch c item bool any (mix t sB) (append (.var name nx) S) v none u
+        = execVariable c item (mix t sB) name (some (appendO nx S)) none := by
+      simp only [append, dispatch]
+    rw [e]; exact execVariable_compP H m name nx hj hcx
+  | key k nx =>
+    have e : dispatch c item bool any (mix t sB) (append (.key k nx) S) v none u
+        = execKeyNode c item any (mix t sB) (append (.key k nx) S) k (some (appendO nx S)) v none u := by
+      simp only [append, dispatch]
+    rw [e]; exact execKeyNode_compP H m _ k nx v u hj hc hcx
+  | binary op lo ro nx =>
+    have e : dispatch c item bool any (mix t sB) (append (.binary op lo ro nx) S) v none u
+        = execBinaryNode c item bool any (mix t sB) (append (.binary op lo ro nx) S) op lo ro (some (appendO nx S)) v none u := by
+      simp only [append, dispatch]
+    rw [e]; exact execBinaryNode_compP H m _ op lo ro nx v u hj hc hcx
+  | unary op x nx =>
+    have e : dispatch c item bool any (mix t sB) (append (.unary op x nx) S) v none u
+        = execUnaryNode c item bool any (mix t sB) (append (.unary op x nx) S) op x (some (appendO nx S)) v none u := by
+      simp only [append, dispatch]
+    rw [e]; exact execUnaryNode_compP H m _ op x nx v u hj hc hcx
+  | regex x pat fl nx =>
+    have e : dispatch c item bool any (mix t sB) (append (.regex x pat fl nx) S) v none u
+        = appendBoolResult c item (some (appendO nx S)) none (bool (mix t sB) (append (.regex x pat fl nx) S) v true) := by
+      simp only [append, dispatch]
+    rw [e]; exact boolNode_compP H m _ nx v hj hcx
+  | method mth nx =>
+    have e : dispatch c item bool any (mix t sB) (append (.method mth nx) S) v none u
+        = execMethodNode c item any (mix t sB) (append (.method mth nx) S) mth (some (appendO nx S)) v none u := by
+      simp only [append, dispatch]
+    rw [e]; exact execMethodNode_compP H m _ mth nx v u hj hc hcx
+  | any first last nx =>
+    have e : dispatch c item bool any (mix t sB) (append (.any first last nx) S) v none u
+        = execAnyNode c item any (mix t sB) first last (some (appendO nx S)) v none := by
+      simp only [append, dispatch]
+    rw [e]
+    have hign : sB.ignoreSE = true := by
+      rcases hc with h | h
+      · exact h
+      · simp [NoAny] at h
+    exact execAnyNode_compP H m first last nx v hj hign
+  | arrayIndex subs nx =>
+    have e : dispatch c item bool any (mix t sB) (append (.arrayIndex subs nx) S) v none u
+        = execArrayIndex c item (mix t sB) subs (some (appendO nx S)) v none := by
+      simp only [append, dispatch]
+    rw [e]; exact execArrayIndex_compP H m subs nx v hj hcx
+
+
+end probe2
+
+
+/-! ### the induction over the fuel, probe mode -/
+
+theorem junctionP (c : Ctx) (S : Node) (Φ : Nat) (hS : Indep sufFlags S = true) (fuel : Nat) (hle : fuel ≤ Φ)
+    (sB t : St) (x : Item) (hj : Junc t sB) :
+    ∃ r, KRp c S Φ t x r ∧
+      xItem c fuel (mix t sB) S x none c.lax = ⟨mix r.st sB, none, r.status, r.err⟩ := by
+  refine ⟨xItem c fuel t S x none c.lax, ⟨fuel, hle, rfl⟩, ?_⟩
+  have h := (frame_all none c fuel).1 (jg sB) t S x none c.lax hS
+  have hg := xItem_good c fuel t S x none c.lax
+  have hb := xItem_bud c fuel t S x none c.lax hj.2.2.2.1
+  rw [jg_st hj, jg_fd] at h
+  rw [show xItem (setRoot none c) fuel = xItem c fuel from rfl] at h
+  rw [h]
+  simp only [Shift.res, jg_fd]
+  rw [jg_st (hj.ofCtxL hg.ctx hb), hg.shape.1 rfl]
+
+/-- **the composition simulation for the dispatchers, probe mode** -/
+theorem compP_all (c : Ctx) (S : Node) (Φ : Nat) (hS : Indep sufFlags S = true) :
+    ∀ fuel : Nat, fuel ≤ Φ → CompIP c S Φ (xItem c fuel) ∧ CompAP c S Φ (xAny c fuel) := by
+  intro fuel
+  induction fuel with
+  | zero =>
+    intro _
+    refine ⟨fun sB t m n v u _ _ => ?_, fun sB t m node vs lv a b ign un _ _ _ _ => ?_⟩
+    · simp only [xItem]; exact CompP.ofBoth _ _ _ _ _ (by simp)
+    · simp only [xAny]; exact CompP.ofBoth _ _ _ _ _ (by simp)
+  | succ fuel ih =>
+    intro hle
+    have ih := ih (Nat.le_of_succ_le hle)
+    have ihc := comp_all c S Φ hS fuel (Nat.le_of_succ_le hle)
+    obtain ⟨hI, hB, hA⟩ := good_all c fuel
+    obtain ⟨bI, bB, bA⟩ := bud_all c fuel
+    obtain ⟨fI, fB, fA⟩ := frame_all none c fuel
+    have H0 : Hyp c S Φ (xItem c fuel) (xBool c fuel) (xAny c fuel) :=
+      { goodI := hI, goodB := hB, goodA := hA, budI := bI, budB := bB, budA := bA,
+        frI := fI, frB := fB, frA := fA,
+        jn := fun sB t x l hj => junction c S Φ hS fuel (Nat.le_of_succ_le hle) sB t x l hj,
+        ci := ihc.1, ca := ihc.2,
+        bnext := fun s n v => xBool_append c fuel s n S v }
+    have H : HypP c S Φ (xItem c fuel) (xBool c fuel) (xAny c fuel) :=
+      { base := H0,
+        jn := fun sB t x hj => junctionP c S Φ hS fuel (Nat.le_of_succ_le hle) sB t x hj,
+        ci := ih.1, ca := ih.2 }
+    refine ⟨fun sB t m n v u hj hc => ?_, fun sB t m node vs lv a b ign un hj hcn hign hun => ?_⟩
+    · simp only [xItem]
+      rw [poll_of_budget_none (s := mix t sB) hj.2.2.2.2, poll_of_budget_none hj.2.2.2.2]
+      exact dispatch_compP H m n v u hj hc
+    · simp only [xAny]
+      exact executeAnyItem_compP H m node vs lv a b ign un hj hcn hign hun
+
+/-- **composition, relational form, probe mode.**  `A` = the run of `P S` in probe mode, `B` = the run of `P`
+    alone (collecting into the empty list); both from the same state `s` (never cancelled), same fuel. -/
+theorem compose_relP (c : Ctx) (S : Node) (Φ : Nat) (hS : Indep sufFlags S = true) (fuel : Nat) (hle : fuel ≤ Φ)
+    (s : St) (hb : s.budget = none) (P : Node) (hc : ChainOK s P) (v : Item) (u : Bool) :
+    CompP c S Φ s [] (xItem c fuel s (append P S) v none u) (xItem c fuel s P v (some []) u) := by
+  have h := (compP_all c S Φ hS fuel hle).1 s s [] P v u ⟨rfl, rfl, rfl, hb, hb⟩ hc
+  rw [mix_self] at h
+  exact h
 end Compose
 end Exec
 end Sqljson
